@@ -1,1980 +1,21 @@
 /-
-  Compiler correctness (soundness direction) for the hex fragment without jumps:
-  literal / masked literal / not-literal / masked-not-literal / any, concatenation, alternation.
-
-  `Seg code r a b` : the bytes `code[a..b)` decode to the emission of `r`.
-  `lang`           : the language accepted from every instruction address (continuation semantics).
-  `reach_lang`     : every reachable configuration of the abstract machine (Lemmas/ReVm.lean) keeps the invariant
-                     "whatever can still be accepted from here extends to a match of the whole pattern".
+  Compiler + VM soundness, end of the chain (forward code, byte mode):
+    Model/ReEmit.lean `emit`  --seg_of_emit-->  code shape `lower r` (Lemmas/ReLower.lean, ReIr.lean)
+    --seg_step / reach_lang / match_sound (Lemmas/ReIrStep.lean, ReIrSound.lean)-->  every length the abstract machine can
+    report is a match of the shape  --lower_sem-->  a match of the expression;
+    Lemmas/ReVm.lean `exec_sound` ties the abstract machine to the executable model of `yr_re_exec`.
+  Holds for EVERY well-formed expression (`WF`: every node kind, counted repeats of every emit-table row, empty
+  alternatives; bounds ordered and below 65536).
 -/
-import YaraModel.Lemmas.ReVm
-import YaraModel.Model.ReEmit
-import YaraModel.Lemmas.ReAlgebra
+import YaraModel.Lemmas.ReLower
 namespace YaraModel.ReEmit
 open YaraModel.Re YaraModel.ReVm
-
-/-- the fragment covered by the VM soundness proof: every node kind except counted repeats `e{n,m}` of a non-dot body
-    other than `e?` (= `e{0,1}`, which is covered) and the empty alternative — hex patterns (bytes, masks, negations, jumps,
-    nested alternatives) entirely -/
-inductive Frag : Re → Prop
-  | lit (b) : Frag (.lit b)
-  | masked (v m) : Frag (.masked v m)
-  | notLit (b) : Frag (.notLit b)
-  | maskedNot (v m) : Frag (.maskedNot v m)
-  | any : Frag .any
-  | cls (bm : Nat) (neg : Bool) : Frag (.cls bm neg)
-  | jump (lo hi : Nat) (g : Bool) : lo ≤ hi → hi < 65536 → Frag (.rangeAny lo hi g)
-  | wordCh : Frag .wordCh
-  | nonWordCh : Frag .nonWordCh
-  | space : Frag .space
-  | nonSpace : Frag .nonSpace
-  | digit : Frag .digit
-  | nonDigit : Frag .nonDigit
-  | bol : Frag .bol
-  | eol : Frag .eol
-  | wordB : Frag .wordB
-  | nonWordB : Frag .nonWordB
-  | star {a} (g : Bool) : Frag a → Frag (.star a g)
-  | plus {a} (g : Bool) : Frag a → Frag (.plus a g)
-  | opt {a} (g : Bool) : Frag a → Frag (.range a 0 1 g)
-  | cat {a b} : Frag a → Frag b → Frag (.cat a b)
-  | alt {a b} : Frag a → Frag b → Frag (.alt a b)
-
-/-- length of the emitted code -/
-def clen : Re → Nat
-  | .lit _ => 2 | .notLit _ => 2 | .masked _ _ => 3 | .maskedNot _ _ => 3 | .any => 1 | .rangeAny _ _ _ => 5 | .cls _ _ => 34
-  | .wordCh => 1 | .nonWordCh => 1 | .space => 1 | .nonSpace => 1 | .digit => 1 | .nonDigit => 1
-  | .bol => 1 | .eol => 1 | .wordB => 1 | .nonWordB => 1
-  | .star a _ => 4 + clen a + 3
-  | .plus a _ => clen a + 4
-  | .range a 0 1 _ => 4 + clen a
-  | .cat a b => clen a + clen b
-  | .alt a b => 4 + clen a + 3 + clen b
-  | _ => 0
-
-/-- `code[a..b)` decodes to the emission of `r` (forward code) -/
-inductive Seg (code : Code) : Re → Nat → Nat → Prop
-  | lit {a : Nat} {b : UInt8} : u8 code a = OP_LITERAL → u8 code (a + 1) = b.toNat → Seg code (.lit b) a (a + 2)
-  | notLit {a : Nat} {b : UInt8} : u8 code a = OP_NOT_LITERAL → u8 code (a + 1) = b.toNat → Seg code (.notLit b) a (a + 2)
-  | masked {a : Nat} {v m : UInt8} : u8 code a = OP_MASKED_LITERAL → u8 code (a + 1) = v.toNat → u8 code (a + 2) = m.toNat →
-      Seg code (.masked v m) a (a + 3)
-  | maskedNot {a : Nat} {v m : UInt8} : u8 code a = OP_MASKED_NOT_LITERAL → u8 code (a + 1) = v.toNat → u8 code (a + 2) = m.toNat →
-      Seg code (.maskedNot v m) a (a + 3)
-  | any {a : Nat} : u8 code a = OP_ANY → Seg code .any a (a + 1)
-  | cls {a bm : Nat} {neg : Bool} : u8 code a = OP_CLASS → u8 code (a + 1) = (if neg then 1 else 0) →
-      (∀ c : UInt8, classBit code a c = inBitmap bm c) → Seg code (.cls bm neg) a (a + 34)
-  | jump {a lo hi : Nat} {g : Bool} : (u8 code a = OP_REPEAT_ANY_GREEDY ∨ u8 code a = OP_REPEAT_ANY_UNGREEDY) →
-      u16 code (a + 1) = lo → u16 code (a + 3) = hi → lo ≤ hi → Seg code (.rangeAny lo hi g) a (a + 5)
-  | wordCh {a : Nat} : u8 code a = OP_WORD_CHAR → Seg code .wordCh a (a + 1)
-  | nonWordCh {a : Nat} : u8 code a = OP_NON_WORD_CHAR → Seg code .nonWordCh a (a + 1)
-  | space {a : Nat} : u8 code a = OP_SPACE → Seg code .space a (a + 1)
-  | nonSpace {a : Nat} : u8 code a = OP_NON_SPACE → Seg code .nonSpace a (a + 1)
-  | digit {a : Nat} : u8 code a = OP_DIGIT → Seg code .digit a (a + 1)
-  | nonDigit {a : Nat} : u8 code a = OP_NON_DIGIT → Seg code .nonDigit a (a + 1)
-  | bol {a : Nat} : u8 code a = OP_MATCH_AT_START → Seg code .bol a (a + 1)
-  | eol {a : Nat} : u8 code a = OP_MATCH_AT_END → Seg code .eol a (a + 1)
-  | wordB {a : Nat} : u8 code a = OP_WORD_BOUNDARY → Seg code .wordB a (a + 1)
-  | nonWordB {a : Nat} : u8 code a = OP_NON_WORD_BOUNDARY → Seg code .nonWordB a (a + 1)
-  | star {x : Re} {a m : Nat} {g : Bool} : (u8 code a = OP_SPLIT_A ∨ u8 code a = OP_SPLIT_B) → addOff a (i16 code (a + 2)) = m + 3 →
-      Seg code x (a + 4) m → u8 code m = OP_JUMP → addOff m (i16 code (m + 1)) = a → Seg code (.star x g) a (m + 3)
-  | plus {x : Re} {a m : Nat} {g : Bool} : Seg code x a m → (u8 code m = OP_SPLIT_A ∨ u8 code m = OP_SPLIT_B) →
-      addOff m (i16 code (m + 2)) = a → Seg code (.plus x g) a (m + 4)
-  | opt {x : Re} {a m : Nat} {g : Bool} : (u8 code a = OP_SPLIT_A ∨ u8 code a = OP_SPLIT_B) → addOff a (i16 code (a + 2)) = m →
-      Seg code x (a + 4) m → Seg code (.range x 0 1 g) a m
-  | cat {x y : Re} {a m b : Nat} : Seg code x a m → Seg code y m b → Seg code (.cat x y) a b
-  | alt {x y : Re} {a m b : Nat} : u8 code a = OP_SPLIT_A → addOff a (i16 code (a + 2)) = m + 3 → Seg code x (a + 4) m →
-      u8 code m = OP_JUMP → addOff m (i16 code (m + 1)) = b → Seg code y (m + 3) b → Seg code (.alt x y) a b
-
-theorem Seg.len {code : Code} {r : Re} {a b : Nat} (h : Seg code r a b) : b = a + clen r := by
-  induction h with
-  | lit _ _ | notLit _ _ | masked _ _ _ | maskedNot _ _ _ | any _ | cls _ _ _ | jump _ _ _ _ | wordCh _ | nonWordCh _ | space _ | nonSpace _ | digit _ | nonDigit _ | bol _ | eol _ | wordB _ | nonWordB _ => simp [clen]
-  | star _ _ _ _ _ ih => simp only [clen]; omega
-  | plus _ _ _ ih => simp only [clen]; omega
-  | opt _ _ _ ih => simp only [clen]; omega
-  | cat _ _ ih1 ih2 => simp only [clen]; omega
-  | alt _ _ _ _ _ _ ih1 ih2 => simp only [clen]; omega
-
-theorem Seg.pos {code : Code} {r : Re} {a b : Nat} (h : Seg code r a b) : a < b := by
-  induction h with
-  | lit _ _ | notLit _ _ | masked _ _ _ | maskedNot _ _ _ | any _ | cls _ _ _ | jump _ _ _ _ | wordCh _ | nonWordCh _ | space _ | nonSpace _ | digit _ | nonDigit _ | bol _ | eol _ | wordB _ | nonWordB _ => omega
-  | star _ _ _ _ _ ih => omega
-  | plus _ _ _ ih => omega
-  | opt _ _ _ ih => omega
-  | cat _ _ ih1 ih2 => omega
-  | alt _ _ _ _ _ _ ih1 ih2 => omega
-
-abbrev Lang := Nat → Nat → Prop
-
-/-- the repeat counter of a REPEAT_ANY fiber as a number of characters (`-1` = not spinning = 0) -/
-def rc0 (rc : Int) : Nat := if rc = -1 then 0 else rc.toNat
-
-/-- language accepted from machine state `(ip, rc, mode)` inside the code of `r` placed at `a`, when `K` is accepted at
-    its end.  At a jump `[lo-hi]`: a WAITING fiber with counter k still has to read the k-th character, a fiber that has
-    read k characters (`post`, or k = 0 on arrival) may read j more with lo ≤ k + j ≤ hi. -/
-def lang (fl : Flags) (buf : Bytes) : Re → Nat → Lang → Nat → Int → Mode → Lang
-  | .cat x y, a, K, ip, rc, m =>
-      let mid := a + clen x
-      if ip < mid then lang fl buf x a (lang fl buf y mid K mid (-1) .run) ip rc m else lang fl buf y mid K ip rc m
-  | .alt x y, a, K, ip, rc, m =>
-      let mid := a + 4 + clen x
-      if ip = a then fun q q' => lang fl buf x (a + 4) K (a + 4) (-1) .run q q' ∨ lang fl buf y (mid + 3) K (mid + 3) (-1) .run q q'
-      else if ip < mid then lang fl buf x (a + 4) K ip rc m
-      else if ip = mid then K
-      else lang fl buf y (mid + 3) K ip rc m
-  | .star x g, a, K, ip, rc, m =>
-      let mid := a + 4 + clen x
-      if ip = a then fun q q' => ∃ t, Re.Matches fl buf (.star x g) q t ∧ K t q'
-      else if ip < mid then lang fl buf x (a + 4) (fun q q' => ∃ t, Re.Matches fl buf (.star x g) q t ∧ K t q') ip rc m
-      else if ip = mid then fun q q' => ∃ t, Re.Matches fl buf (.star x g) q t ∧ K t q'
-      else K
-  | .plus x g, a, K, ip, rc, m =>
-      let mid := a + clen x
-      if ip < mid then lang fl buf x a (fun q q' => K q q' ∨ ∃ t, Re.Matches fl buf (.plus x g) q t ∧ K t q') ip rc m
-      else if ip = mid then fun q q' => K q q' ∨ ∃ t, Re.Matches fl buf (.plus x g) q t ∧ K t q'
-      else K
-  | .range x 0 1 g, a, K, ip, rc, m =>
-      if ip = a then fun q q' => ∃ t, Re.Matches fl buf (.range x 0 1 g) q t ∧ K t q'
-      else lang fl buf x (a + 4) K ip rc m
-  | .rangeAny lo hi _, a, K, ip, rc, m =>
-      if ip = a then
-        match m with
-        | .wait => fun q q' => ∃ j t, 1 ≤ j ∧ lo ≤ rc0 rc - 1 + j ∧ rc0 rc - 1 + j ≤ hi ∧ Path (step fl buf (testAny fl)) j q t ∧ K t q'
-        | _ => fun q q' => ∃ j t, lo ≤ rc0 rc + j ∧ rc0 rc + j ≤ hi ∧ Path (step fl buf (testAny fl)) j q t ∧ K t q'
-      else K
-  | r, a, K, ip, _, _ => if ip = a then fun q q' => ∃ t, Re.Matches fl buf r q t ∧ K t q' else K
-
-section
-variable (fl : Flags) (buf : Bytes)
-
-/-- the entry language of a segment is the specification of its expression followed by the continuation -/
-theorem lang_entry {code : Code} {r : Re} {a b : Nat} (hs : Seg code r a b) (K : Lang) (q q' : Nat) :
-    lang fl buf r a K a (-1) .run q q' → ∃ t, Re.Matches fl buf r q t ∧ K t q' := by
-  induction hs generalizing K q q' with
-  | lit _ _ | notLit _ _ | masked _ _ _ | maskedNot _ _ _ | any _ | cls _ _ _ | wordCh _ | nonWordCh _ | space _ | nonSpace _ | digit _ | nonDigit _ | bol _ | eol _ | wordB _ | nonWordB _ => simp [lang]
-  | @jump a lo hi g _ _ _ _ =>
-    intro h
-    simp only [lang, if_true] at h
-    obtain ⟨j, t, h1, h2, hp, hk⟩ := h
-    simp only [rc0, if_true, Nat.zero_add] at h1 h2
-    exact ⟨t, rangeAny_of_path j lo hi q t h1 h2 hp, hk⟩
-  | @star x a m g _ _ h1 _ _ ih =>
-    intro h
-    simp only [lang, if_true] at h
-    exact h
-  | @plus x a m g h1 _ _ ih =>
-    intro h
-    have hm : m = a + clen x := h1.len
-    have hlt : a < a + clen x := by have := h1.pos; omega
-    simp only [lang, hlt, if_true] at h
-    obtain ⟨t, ht, hk⟩ := ih _ _ _ h
-    rcases hk with hk | ⟨t2, ht2, hk2⟩
-    · exact ⟨t, .plusOne ht, hk⟩
-    · exact ⟨t2, .plusStep ht ht2, hk2⟩
-  | @opt x a m g _ _ h1 ih =>
-    intro h
-    simp only [lang, if_true] at h
-    exact h
-  | @cat x y a m b h1 h2 ih1 ih2 =>
-    intro h
-    have hm : m = a + clen x := h1.len
-    have hlt : a < a + clen x := by have := h1.pos; omega
-    simp only [lang, hlt, if_true] at h
-    obtain ⟨t, ht, hk⟩ := ih1 _ _ _ h
-    rw [← hm] at hk
-    obtain ⟨t2, ht2, hk2⟩ := ih2 _ _ _ hk
-    exact ⟨t2, .cat ht ht2, hk2⟩
-  | @alt x y a m b _ _ h1 _ _ h2 ih1 ih2 =>
-    intro h
-    have hm : m = a + 4 + clen x := by have := h1.len; omega
-    simp only [lang, if_true] at h
-    rw [← hm] at h
-    rcases h with h | h
-    · obtain ⟨t, ht, hk⟩ := ih1 _ _ _ h
-      exact ⟨t, .altL ht, hk⟩
-    · obtain ⟨t, ht, hk⟩ := ih2 _ _ _ h
-      exact ⟨t, .altR ht, hk⟩
-
-/-- at the end address of a segment the language is the continuation -/
-theorem lang_end {code : Code} {r : Re} {a b : Nat} (hs : Seg code r a b) (K : Lang) (rc : Int) (md : Mode) :
-    lang fl buf r a K b rc md = K := by
-  induction hs generalizing K with
-  | lit _ _ | notLit _ _ | masked _ _ _ | maskedNot _ _ _ | any _ | cls _ _ _ | jump _ _ _ _ | wordCh _ | nonWordCh _ | space _ | nonSpace _ | digit _ | nonDigit _ | bol _ | eol _ | wordB _ | nonWordB _ => simp [lang]
-  | @star x a m g _ _ h1 _ _ ih =>
-    have hm : m = a + 4 + clen x := by have := h1.len; omega
-    have p1 := h1.pos
-    have c1 : ¬ m + 3 = a := by omega
-    have c2 : ¬ m + 3 < a + 4 + clen x := by omega
-    have c3 : ¬ m + 3 = a + 4 + clen x := by omega
-    simp only [lang, c1, c2, c3, if_false]
-  | @plus x a m g h1 _ _ ih =>
-    have hm : m = a + clen x := h1.len
-    have c2 : ¬ m + 4 < a + clen x := by omega
-    have c3 : ¬ m + 4 = a + clen x := by omega
-    simp only [lang, c2, c3, if_false]
-  | @opt x a m g _ _ h1 ih =>
-    have p1 := h1.pos
-    have c1 : ¬ m = a := by omega
-    simp only [lang, c1, if_false]
-    exact ih K
-  | @cat x y a m b h1 h2 ih1 ih2 =>
-    have hm : m = a + clen x := h1.len
-    have : ¬ b < a + clen x := by have := h2.pos; omega
-    simp only [lang, this, if_false]
-    rw [← hm]; exact ih2 K
-  | @alt x y a m b _ _ h1 _ _ h2 ih1 ih2 =>
-    have hm : m = a + 4 + clen x := by have := h1.len; omega
-    have p1 := h1.pos
-    have p2 := h2.pos
-    have c1 : ¬ b = a := by omega
-    have c2 : ¬ b < a + 4 + clen x := by omega
-    have c3 : ¬ b = a + 4 + clen x := by omega
-    simp only [lang, c1, c2, c3, if_false]
-    rw [← hm]; exact ih2 K
-
-end
-
-/-- VM flags of a forward, non-scanning run in byte mode and the specification flags they correspond to -/
-def specFlags (v : VmFlags) : Flags := { wide := false, nocase := v.nocase, dotall := v.dotall }
-
-structure FwdByte (e : Env) : Prop where
-  notWide : e.fl.wide = false
-  notBack : e.fl.backwards = false
-  startIn : e.start ≤ e.buf.size
-
-theorem cs_one {e : Env} (h : FwdByte e) : e.cs = 1 := by simp [Env.cs, h.notWide]
-theorem inp_fwd {e : Env} (h : FwdByte e) (bm : Nat) : e.inp bm = ((e.start + bm : Nat) : Int) := by
-  simp [Env.inp, h.notBack]
-
-/-- a successful consuming step reads a byte inside the buffer -/
-theorem consume_in_buf {e : Env} (h : FwdByte e) {bm : Nat} {f : Fiber} (hc : consumeOk e bm f = true) :
-    e.start + bm < e.buf.size := by
-  unfold consumeOk at hc
-  simp only [Bool.and_eq_true, Bool.not_eq_true', Bool.or_eq_false_iff, decide_eq_false_iff_not] at hc
-  have h1 := hc.1.1
-  unfold Env.maxBytes at h1
-  simp only [h.notBack, Bool.false_eq_true, if_false, cs_one h, Nat.mod_one, Nat.sub_zero] at h1
-  unfold Env.fwdSize at h1
-  omega
-
-theorem byteAt_eq {buf : Bytes} {i : Nat} (h : i < buf.size) : buf[i]? = some (byteAt buf (i : Int)) := by
-  unfold byteAt
-  have : ¬ ((i : Int) < 0) := by omega
-  simp only [this, if_false, Int.toNat_natCast]
-  rw [Array.getElem?_eq_getElem h]; simp
-
-/-- spec-side acceptance of the byte at `q` -/
-theorem charOk_of {fl : Flags} (hw : fl.wide = false) {buf : Bytes} {t : UInt8 → Bool} {q : Nat} (hq : q < buf.size)
-    (ht : t (byteAt buf (q : Int)) = true) : charOk fl buf t q = true := by
-  unfold charOk
-  rw [byteAt_eq hq]
-  simp [hw, ht]
-
-
-/-! ### valid machine states inside a segment -/
-/-- `(ip, rc, mode)` is a state the machine can be in at an instruction of `r` placed at `a` -/
-def Valid : Re → Nat → Nat → Int → Mode → Prop
-  | .cat x y, a, ip, rc, m => Valid x a ip rc m ∨ Valid y (a + clen x) ip rc m
-  | .alt x y, a, ip, rc, m => (ip = a ∧ rc = -1 ∧ m = .run) ∨ Valid x (a + 4) ip rc m ∨
-      (ip = a + 4 + clen x ∧ rc = -1 ∧ m = .run) ∨ Valid y (a + 4 + clen x + 3) ip rc m
-  | .star x _, a, ip, rc, m => (ip = a ∧ rc = -1 ∧ m = .run) ∨ Valid x (a + 4) ip rc m ∨ (ip = a + 4 + clen x ∧ rc = -1 ∧ m = .run)
-  | .plus x _, a, ip, rc, m => Valid x a ip rc m ∨ (ip = a + clen x ∧ rc = -1 ∧ m = .run)
-  | .range x 0 1 _, a, ip, rc, m => (ip = a ∧ rc = -1 ∧ m = .run) ∨ Valid x (a + 4) ip rc m
-  | .rangeAny _ hi _, a, ip, rc, m => ip = a ∧ ((m = .run ∧ rc = -1) ∨ (m ≠ .run ∧ 1 ≤ rc ∧ rc ≤ hi))
-  | _, a, ip, rc, m => ip = a ∧ rc = -1 ∧ m = .run
-
-theorem valid_range {code : Code} {r : Re} {a b : Nat} (hs : Seg code r a b) {ip : Nat} {rc : Int} {m : Mode}
-    (h : Valid r a ip rc m) : a ≤ ip ∧ ip < b := by
-  induction hs generalizing ip with
-  | lit _ _ | notLit _ _ | masked _ _ _ | maskedNot _ _ _ | any _ | cls _ _ _ | jump _ _ _ _ | wordCh _ | nonWordCh _ | space _ | nonSpace _ | digit _ | nonDigit _ | bol _ | eol _ | wordB _ | nonWordB _ => simp only [Valid] at h; omega
-  | @star x a m g _ _ h1 _ _ ih =>
-    have hm : m = a + 4 + clen x := by have := h1.len; omega
-    have p1 := h1.pos
-    simp only [Valid] at h
-    rw [← hm] at h
-    rcases h with h | h | h
-    · omega
-    · have := ih h; omega
-    · omega
-  | @plus x a m g h1 _ _ ih =>
-    have hm : m = a + clen x := h1.len
-    have p1 := h1.pos
-    simp only [Valid] at h
-    rw [← hm] at h
-    rcases h with h | h
-    · have := ih h; omega
-    · omega
-  | @opt x a m g _ _ h1 ih =>
-    have p1 := h1.pos
-    simp only [Valid] at h
-    rcases h with h | h
-    · omega
-    · have := ih h; omega
-  | @cat x y a m b h1 h2 ih1 ih2 =>
-    have hm : m = a + clen x := h1.len
-    have p1 := h1.pos; have p2 := h2.pos
-    simp only [Valid] at h
-    rcases h with h | h
-    · have := ih1 h; omega
-    · rw [← hm] at h; have := ih2 h; omega
-  | @alt x y a m b _ _ h1 _ _ h2 ih1 ih2 =>
-    have hm : m = a + 4 + clen x := by have := h1.len; omega
-    have p1 := h1.pos; have p2 := h2.pos
-    simp only [Valid] at h
-    rw [← hm] at h
-    rcases h with h | h | h | h
-    · omega
-    · have := ih1 h; omega
-    · omega
-    · have := ih2 h; omega
-
-theorem valid_first {code : Code} {r : Re} {a b : Nat} (hs : Seg code r a b) : Valid r a a (-1) .run := by
-  induction hs with
-  | lit _ _ | notLit _ _ | masked _ _ _ | maskedNot _ _ _ | any _ | cls _ _ _ | wordCh _ | nonWordCh _ | space _ | nonSpace _ | digit _ | nonDigit _ | bol _ | eol _ | wordB _ | nonWordB _ => simp [Valid]
-  | jump _ _ _ _ => simp [Valid]
-  | star _ _ _ _ _ _ => exact .inl ⟨rfl, rfl, rfl⟩
-  | plus _ _ _ ih => exact .inl ih
-  | opt _ _ _ _ => exact .inl ⟨rfl, rfl, rfl⟩
-  | cat _ _ ih1 _ => exact .inl ih1
-  | alt _ _ _ _ _ _ _ _ => exact .inl ⟨rfl, rfl, rfl⟩
-
-/-- the state just behind a segment: next instruction, not spinning -/
-def AtEnd (b : Nat) (g : Fiber) (m : Mode) : Prop := g.ip = b ∧ g.rc = -1 ∧ m = .run
-
-/-! ### what the ε-steps can be for a known opcode -/
-theorem no_estep {code : Code} {f g : Fiber} (h : EStep code f g)
-    (hop : u8 code f.ip = OP_LITERAL ∨ u8 code f.ip = OP_NOT_LITERAL ∨ u8 code f.ip = OP_MASKED_LITERAL ∨
-      u8 code f.ip = OP_MASKED_NOT_LITERAL ∨ u8 code f.ip = OP_ANY) : False := by
-  cases h <;> rename_i h1 <;>
-    simp only [OP_LITERAL, OP_NOT_LITERAL, OP_MASKED_LITERAL, OP_MASKED_NOT_LITERAL, OP_ANY, OP_SPLIT_A, OP_SPLIT_B, OP_JUMP,
-      OP_REPEAT_START_GREEDY, OP_REPEAT_START_UNGREEDY, OP_REPEAT_END_GREEDY, OP_REPEAT_END_UNGREEDY, OP_REPEAT_ANY_GREEDY,
-      OP_REPEAT_ANY_UNGREEDY] at * <;> omega
-
-theorem estep_split {code : Code} {f g : Fiber} (h : EStep code f g) (hop : u8 code f.ip = OP_SPLIT_A ∨ u8 code f.ip = OP_SPLIT_B) :
-    g = { f with ip := f.ip + 4 } ∨ g = { f with ip := addOff f.ip (i16 code (f.ip + 2)) } := by
-  cases h with
-  | splitNext _ => exact .inl rfl
-  | splitJmp _ => exact .inr rfl
-  | _ => rename_i h1; simp only [OP_SPLIT_A, OP_SPLIT_B, OP_JUMP, OP_REPEAT_START_GREEDY, OP_REPEAT_START_UNGREEDY, OP_REPEAT_END_GREEDY,
-      OP_REPEAT_END_UNGREEDY, OP_REPEAT_ANY_GREEDY, OP_REPEAT_ANY_UNGREEDY] at *; omega
-
-theorem estep_jump {code : Code} {f g : Fiber} (h : EStep code f g) (hop : u8 code f.ip = OP_JUMP) :
-    g = { f with ip := addOff f.ip (i16 code (f.ip + 1)) } := by
-  cases h with
-  | jump _ => rfl
-  | _ => rename_i h1; simp only [OP_SPLIT_A, OP_SPLIT_B, OP_JUMP, OP_REPEAT_START_GREEDY, OP_REPEAT_START_UNGREEDY, OP_REPEAT_END_GREEDY,
-      OP_REPEAT_END_UNGREEDY, OP_REPEAT_ANY_GREEDY, OP_REPEAT_ANY_UNGREEDY] at *; omega
-
-
-/-- ε-steps only happen at control instructions -/
-def isCtl (op : Nat) : Prop :=
-  op = OP_SPLIT_A ∨ op = OP_SPLIT_B ∨ op = OP_JUMP ∨ op = OP_REPEAT_START_GREEDY ∨ op = OP_REPEAT_START_UNGREEDY ∨
-  op = OP_REPEAT_END_GREEDY ∨ op = OP_REPEAT_END_UNGREEDY
-
-theorem estep_ctl {code : Code} {f g : Fiber} (h : EStep code f g) : isCtl (u8 code f.ip) := by
-  unfold isCtl
-  cases h with
-  | splitNext h1 | splitJmp h1 | repStartEnter h1 | repStartSkip h1 _ | repEndLoop h1 _ | repEndExit h1 _ =>
-    rcases h1 with h1 | h1 <;> rw [h1] <;> decide
-  | jump h1 => rw [h1]; decide
-
-theorem no_astep {code : Code} {f g : Fiber} {st : Bool} (h : AStep code f g st)
-    (hop : ¬ (u8 code f.ip = OP_REPEAT_ANY_GREEDY ∨ u8 code f.ip = OP_REPEAT_ANY_UNGREEDY)) : False := by
-  cases h <;> rename_i h1 _ <;> exact hop h1
-
-theorem no_estep_any {code : Code} {f g : Fiber} (h : EStep code f g)
-    (hop : u8 code f.ip = OP_REPEAT_ANY_GREEDY ∨ u8 code f.ip = OP_REPEAT_ANY_UNGREEDY) : False := by
-  cases h <;> rename_i h1 <;>
-    simp only [OP_SPLIT_A, OP_SPLIT_B, OP_JUMP, OP_REPEAT_START_GREEDY, OP_REPEAT_START_UNGREEDY, OP_REPEAT_END_GREEDY,
-      OP_REPEAT_END_UNGREEDY, OP_REPEAT_ANY_GREEDY, OP_REPEAT_ANY_UNGREEDY] at * <;> omega
-
-/-! ### consuming instructions against the specification's one-character tests -/
-theorem specFlags_cs (v : VmFlags) : (specFlags v).cs = 1 := rfl
-
-theorem consumeTest_of {e : Env} (h : FwdByte e) {bm : Nat} {f : Fiber} (hc : consumeOk e bm f = true) :
-    consumeTest e.code e.fl f.ip e.buf 1 ((e.start + bm : Nat) : Int) = true := by
-  unfold consumeOk at hc
-  simp only [Bool.and_eq_true] at hc
-  have := hc.2
-  rwa [cs_one h, inp_fwd h] at this
-
-theorem toNat_beq (c b : UInt8) : (c.toNat == b.toNat) = (c == b) := by
-  rw [Bool.eq_iff_iff]; simp [UInt8.toNat_inj]
-
-theorem consume_lit {e : Env} (h : FwdByte e) {bm : Nat} {f : Fiber} {b : UInt8} (hop : u8 e.code f.ip = OP_LITERAL)
-    (harg : u8 e.code (f.ip + 1) = b.toNat) (hc : consumeOk e bm f = true) :
-    Re.Matches (specFlags e.fl) e.buf (.lit b) (e.start + bm) (e.start + bm + 1) := by
-  have hq := consume_in_buf h hc
-  have ht := consumeTest_of h hc
-  have : Re.Matches (specFlags e.fl) e.buf (.lit b) (e.start + bm) (e.start + bm + (specFlags e.fl).cs) := by
-    apply Re.Matches.lit
-    apply charOk_of rfl hq
-    unfold consumeTest at ht
-    simp only [hop, harg, OP_LITERAL, OP_ANY, OP_REPEAT_ANY_GREEDY, OP_REPEAT_ANY_UNGREEDY] at ht
-    simp only [Nat.reduceEqDiff, or_self, if_false, if_true] at ht
-    unfold testLit specFlags
-    simp only
-    split at ht
-    · rename_i hn; simp only [hn, if_true]; rwa [UInt8.ofNat_toNat] at ht
-    · rename_i hn; simp only [hn]; rwa [toNat_beq] at ht
-  rwa [specFlags_cs] at this
-
-theorem consume_notLit {e : Env} (h : FwdByte e) {bm : Nat} {f : Fiber} {b : UInt8} (hop : u8 e.code f.ip = OP_NOT_LITERAL)
-    (harg : u8 e.code (f.ip + 1) = b.toNat) (hc : consumeOk e bm f = true) :
-    Re.Matches (specFlags e.fl) e.buf (.notLit b) (e.start + bm) (e.start + bm + 1) := by
-  have hq := consume_in_buf h hc
-  have ht := consumeTest_of h hc
-  have : Re.Matches (specFlags e.fl) e.buf (.notLit b) (e.start + bm) (e.start + bm + (specFlags e.fl).cs) := by
-    apply Re.Matches.notLit
-    apply charOk_of rfl hq
-    unfold consumeTest at ht
-    simp only [hop, harg, OP_NOT_LITERAL, OP_LITERAL, OP_ANY, OP_REPEAT_ANY_GREEDY, OP_REPEAT_ANY_UNGREEDY] at ht
-    simp only [Nat.reduceEqDiff, or_self, if_false, if_true] at ht
-    simp only [bne_iff_ne, ne_eq] at ht ⊢
-    intro heq; apply ht; rw [heq]
-  rwa [specFlags_cs] at this
-
-theorem toNat_and_beq (c m v : UInt8) : ((c.toNat &&& m.toNat) == v.toNat) = ((c &&& m) == v) := by
-  rw [← UInt8.toNat_and, toNat_beq]
-
-theorem consume_masked {e : Env} (h : FwdByte e) {bm : Nat} {f : Fiber} {v m : UInt8} (hop : u8 e.code f.ip = OP_MASKED_LITERAL)
-    (h1 : u8 e.code (f.ip + 1) = v.toNat) (h2 : u8 e.code (f.ip + 2) = m.toNat) (hc : consumeOk e bm f = true) :
-    Re.Matches (specFlags e.fl) e.buf (.masked v m) (e.start + bm) (e.start + bm + 1) := by
-  have hq := consume_in_buf h hc
-  have ht := consumeTest_of h hc
-  have : Re.Matches (specFlags e.fl) e.buf (.masked v m) (e.start + bm) (e.start + bm + (specFlags e.fl).cs) := by
-    apply Re.Matches.masked
-    apply charOk_of rfl hq
-    unfold consumeTest at ht
-    simp only [hop, h1, h2, OP_MASKED_LITERAL, OP_NOT_LITERAL, OP_LITERAL, OP_ANY, OP_REPEAT_ANY_GREEDY, OP_REPEAT_ANY_UNGREEDY] at ht
-    simp only [Nat.reduceEqDiff, or_self, if_false, if_true] at ht
-    unfold testMasked
-    rwa [toNat_and_beq] at ht
-  rwa [specFlags_cs] at this
-
-theorem consume_maskedNot {e : Env} (h : FwdByte e) {bm : Nat} {f : Fiber} {v m : UInt8} (hop : u8 e.code f.ip = OP_MASKED_NOT_LITERAL)
-    (h1 : u8 e.code (f.ip + 1) = v.toNat) (h2 : u8 e.code (f.ip + 2) = m.toNat) (hc : consumeOk e bm f = true) :
-    Re.Matches (specFlags e.fl) e.buf (.maskedNot v m) (e.start + bm) (e.start + bm + 1) := by
-  have hq := consume_in_buf h hc
-  have ht := consumeTest_of h hc
-  have : Re.Matches (specFlags e.fl) e.buf (.maskedNot v m) (e.start + bm) (e.start + bm + (specFlags e.fl).cs) := by
-    apply Re.Matches.maskedNot
-    apply charOk_of rfl hq
-    unfold consumeTest at ht
-    simp only [hop, h1, h2, OP_MASKED_NOT_LITERAL, OP_MASKED_LITERAL, OP_NOT_LITERAL, OP_LITERAL, OP_ANY, OP_REPEAT_ANY_GREEDY,
-      OP_REPEAT_ANY_UNGREEDY] at ht
-    simp only [Nat.reduceEqDiff, or_self, if_false, if_true] at ht
-    unfold testMasked
-    simp only [bne_iff_ne, ne_eq, Bool.not_eq_true', beq_eq_false_iff_ne] at ht ⊢
-    intro heq; apply ht
-    rw [← UInt8.toNat_and, heq]
-  rwa [specFlags_cs] at this
-
-theorem consume_any {e : Env} (h : FwdByte e) {bm : Nat} {f : Fiber} (hop : u8 e.code f.ip = OP_ANY) (hc : consumeOk e bm f = true) :
-    Re.Matches (specFlags e.fl) e.buf .any (e.start + bm) (e.start + bm + 1) := by
-  have hq := consume_in_buf h hc
-  have ht := consumeTest_of h hc
-  have : Re.Matches (specFlags e.fl) e.buf .any (e.start + bm) (e.start + bm + (specFlags e.fl).cs) := by
-    apply Re.Matches.any
-    apply charOk_of rfl hq
-    unfold consumeTest at ht
-    simp only [hop, OP_ANY, true_or, if_true] at ht
-    unfold testAny specFlags
-    exact ht
-  rwa [specFlags_cs] at this
-
-
-theorem consume_wordCh {e : Env} (h : FwdByte e) {bm : Nat} {f : Fiber} (hop : u8 e.code f.ip = OP_WORD_CHAR) (hc : consumeOk e bm f = true) :
-    Re.Matches (specFlags e.fl) e.buf .wordCh (e.start + bm) (e.start + bm + 1) := by
-  have hq := consume_in_buf h hc
-  have ht := consumeTest_of h hc
-  have : Re.Matches (specFlags e.fl) e.buf .wordCh (e.start + bm) (e.start + bm + (specFlags e.fl).cs) := by
-    apply Re.Matches.wordCh
-    apply charOk_of rfl hq
-    unfold consumeTest at ht
-    simp only [hop, OP_ANY, OP_REPEAT_ANY_GREEDY, OP_REPEAT_ANY_UNGREEDY, OP_LITERAL, OP_NOT_LITERAL, OP_MASKED_LITERAL, OP_MASKED_NOT_LITERAL, OP_CLASS, OP_WORD_CHAR, OP_NON_WORD_CHAR, OP_SPACE, OP_NON_SPACE, OP_DIGIT, OP_NON_DIGIT] at ht
-    simp only [Nat.reduceEqDiff, or_self, if_false, if_true] at ht
-    simpa [isWordCharAt] using ht
-  rwa [specFlags_cs] at this
-
-theorem consume_nonWordCh {e : Env} (h : FwdByte e) {bm : Nat} {f : Fiber} (hop : u8 e.code f.ip = OP_NON_WORD_CHAR) (hc : consumeOk e bm f = true) :
-    Re.Matches (specFlags e.fl) e.buf .nonWordCh (e.start + bm) (e.start + bm + 1) := by
-  have hq := consume_in_buf h hc
-  have ht := consumeTest_of h hc
-  have : Re.Matches (specFlags e.fl) e.buf .nonWordCh (e.start + bm) (e.start + bm + (specFlags e.fl).cs) := by
-    apply Re.Matches.nonWordCh
-    apply charOk_of rfl hq
-    unfold consumeTest at ht
-    simp only [hop, OP_ANY, OP_REPEAT_ANY_GREEDY, OP_REPEAT_ANY_UNGREEDY, OP_LITERAL, OP_NOT_LITERAL, OP_MASKED_LITERAL, OP_MASKED_NOT_LITERAL, OP_CLASS, OP_WORD_CHAR, OP_NON_WORD_CHAR, OP_SPACE, OP_NON_SPACE, OP_DIGIT, OP_NON_DIGIT] at ht
-    simp only [Nat.reduceEqDiff, or_self, if_false, if_true] at ht
-    simpa [isWordCharAt] using ht
-  rwa [specFlags_cs] at this
-
-theorem consume_space {e : Env} (h : FwdByte e) {bm : Nat} {f : Fiber} (hop : u8 e.code f.ip = OP_SPACE) (hc : consumeOk e bm f = true) :
-    Re.Matches (specFlags e.fl) e.buf .space (e.start + bm) (e.start + bm + 1) := by
-  have hq := consume_in_buf h hc
-  have ht := consumeTest_of h hc
-  have : Re.Matches (specFlags e.fl) e.buf .space (e.start + bm) (e.start + bm + (specFlags e.fl).cs) := by
-    apply Re.Matches.space
-    apply charOk_of rfl hq
-    unfold consumeTest at ht
-    simp only [hop, OP_ANY, OP_REPEAT_ANY_GREEDY, OP_REPEAT_ANY_UNGREEDY, OP_LITERAL, OP_NOT_LITERAL, OP_MASKED_LITERAL, OP_MASKED_NOT_LITERAL, OP_CLASS, OP_WORD_CHAR, OP_NON_WORD_CHAR, OP_SPACE, OP_NON_SPACE, OP_DIGIT, OP_NON_DIGIT] at ht
-    simp only [Nat.reduceEqDiff, or_self, if_false, if_true] at ht
-    simpa [isWordCharAt] using ht
-  rwa [specFlags_cs] at this
-
-theorem consume_nonSpace {e : Env} (h : FwdByte e) {bm : Nat} {f : Fiber} (hop : u8 e.code f.ip = OP_NON_SPACE) (hc : consumeOk e bm f = true) :
-    Re.Matches (specFlags e.fl) e.buf .nonSpace (e.start + bm) (e.start + bm + 1) := by
-  have hq := consume_in_buf h hc
-  have ht := consumeTest_of h hc
-  have : Re.Matches (specFlags e.fl) e.buf .nonSpace (e.start + bm) (e.start + bm + (specFlags e.fl).cs) := by
-    apply Re.Matches.nonSpace
-    apply charOk_of rfl hq
-    unfold consumeTest at ht
-    simp only [hop, OP_ANY, OP_REPEAT_ANY_GREEDY, OP_REPEAT_ANY_UNGREEDY, OP_LITERAL, OP_NOT_LITERAL, OP_MASKED_LITERAL, OP_MASKED_NOT_LITERAL, OP_CLASS, OP_WORD_CHAR, OP_NON_WORD_CHAR, OP_SPACE, OP_NON_SPACE, OP_DIGIT, OP_NON_DIGIT] at ht
-    simp only [Nat.reduceEqDiff, or_self, if_false, if_true] at ht
-    simpa [isWordCharAt] using ht
-  rwa [specFlags_cs] at this
-
-theorem consume_digit {e : Env} (h : FwdByte e) {bm : Nat} {f : Fiber} (hop : u8 e.code f.ip = OP_DIGIT) (hc : consumeOk e bm f = true) :
-    Re.Matches (specFlags e.fl) e.buf .digit (e.start + bm) (e.start + bm + 1) := by
-  have hq := consume_in_buf h hc
-  have ht := consumeTest_of h hc
-  have : Re.Matches (specFlags e.fl) e.buf .digit (e.start + bm) (e.start + bm + (specFlags e.fl).cs) := by
-    apply Re.Matches.digit
-    apply charOk_of rfl hq
-    unfold consumeTest at ht
-    simp only [hop, OP_ANY, OP_REPEAT_ANY_GREEDY, OP_REPEAT_ANY_UNGREEDY, OP_LITERAL, OP_NOT_LITERAL, OP_MASKED_LITERAL, OP_MASKED_NOT_LITERAL, OP_CLASS, OP_WORD_CHAR, OP_NON_WORD_CHAR, OP_SPACE, OP_NON_SPACE, OP_DIGIT, OP_NON_DIGIT] at ht
-    simp only [Nat.reduceEqDiff, or_self, if_false, if_true] at ht
-    simpa [isWordCharAt] using ht
-  rwa [specFlags_cs] at this
-
-theorem consume_nonDigit {e : Env} (h : FwdByte e) {bm : Nat} {f : Fiber} (hop : u8 e.code f.ip = OP_NON_DIGIT) (hc : consumeOk e bm f = true) :
-    Re.Matches (specFlags e.fl) e.buf .nonDigit (e.start + bm) (e.start + bm + 1) := by
-  have hq := consume_in_buf h hc
-  have ht := consumeTest_of h hc
-  have : Re.Matches (specFlags e.fl) e.buf .nonDigit (e.start + bm) (e.start + bm + (specFlags e.fl).cs) := by
-    apply Re.Matches.nonDigit
-    apply charOk_of rfl hq
-    unfold consumeTest at ht
-    simp only [hop, OP_ANY, OP_REPEAT_ANY_GREEDY, OP_REPEAT_ANY_UNGREEDY, OP_LITERAL, OP_NOT_LITERAL, OP_MASKED_LITERAL, OP_MASKED_NOT_LITERAL, OP_CLASS, OP_WORD_CHAR, OP_NON_WORD_CHAR, OP_SPACE, OP_NON_SPACE, OP_DIGIT, OP_NON_DIGIT] at ht
-    simp only [Nat.reduceEqDiff, or_self, if_false, if_true] at ht
-    simpa [isWordCharAt] using ht
-  rwa [specFlags_cs] at this
-
-theorem consume_cls {e : Env} (h : FwdByte e) {bm : Nat} {f : Fiber} {cb : Nat} {neg : Bool} (hop : u8 e.code f.ip = OP_CLASS)
-    (hneg : u8 e.code (f.ip + 1) = (if neg then 1 else 0)) (hbits : ∀ c : UInt8, classBit e.code f.ip c = inBitmap cb c)
-    (hc : consumeOk e bm f = true) :
-    Re.Matches (specFlags e.fl) e.buf (.cls cb neg) (e.start + bm) (e.start + bm + 1) := by
-  have hq := consume_in_buf h hc
-  have ht := consumeTest_of h hc
-  have : Re.Matches (specFlags e.fl) e.buf (.cls cb neg) (e.start + bm) (e.start + bm + (specFlags e.fl).cs) := by
-    apply Re.Matches.cls
-    apply charOk_of rfl hq
-    unfold consumeTest at ht
-    simp only [hop, OP_ANY, OP_REPEAT_ANY_GREEDY, OP_REPEAT_ANY_UNGREEDY, OP_LITERAL, OP_NOT_LITERAL, OP_MASKED_LITERAL, OP_MASKED_NOT_LITERAL, OP_CLASS] at ht
-    simp only [Nat.reduceEqDiff, or_self, if_false, if_true] at ht
-    rw [hneg, hbits, hbits] at ht
-    unfold testCls specFlags
-    simp only
-    cases neg
-    · simpa using ht
-    · simpa using ht
-  rwa [specFlags_cs] at this
-
-/-! ### zero-width instructions against the specification (forwards, byte mode) -/
-theorem charOk_narrow {fl : Flags} (hw : fl.wide = false) (buf : Bytes) (t : UInt8 → Bool) (p : Nat) :
-    charOk fl buf t p = (decide (p < buf.size) && t (byteAt buf (p : Int))) := by
-  by_cases hp : p < buf.size
-  · unfold charOk
-    rw [byteAt_eq hp]
-    simp [hw, hp]
-  · unfold charOk
-    have : buf[p]? = none := Array.getElem?_eq_none (by omega)
-    rw [this]
-    simp [hp]
-
-theorem zw_bol {e : Env} (h : FwdByte e) {bm : Nat} (hz : zeroWidthOk e bm OP_MATCH_AT_START = true) : e.start + bm = 0 := by
-  unfold zeroWidthOk at hz
-  simp [OP_MATCH_AT_START, OP_WORD_BOUNDARY, OP_NON_WORD_BOUNDARY, h.notBack, Env.bwdSize] at hz
-  omega
-
-theorem zw_eol {e : Env} (h : FwdByte e) {bm : Nat} (hb : e.start + bm ≤ e.buf.size) (hz : zeroWidthOk e bm OP_MATCH_AT_END = true) :
-    e.start + bm = e.buf.size := by
-  unfold zeroWidthOk at hz
-  simp [OP_MATCH_AT_END, OP_MATCH_AT_START, OP_WORD_BOUNDARY, OP_NON_WORD_BOUNDARY, h.notBack, Env.fwdSize] at hz
-  omega
-
-theorem zw_boundary {e : Env} (h : FwdByte e) {bm : Nat} (hbb : e.start + bm ≤ e.buf.size) :
-    zeroWidthOk e bm OP_WORD_BOUNDARY = isBoundary (specFlags e.fl) e.buf (e.start + bm) := by
-  have hcs : e.cs = 1 := cs_one h
-  have hinp : e.inp bm = ((e.start + bm : Nat) : Int) := inp_fwd h bm
-  have hb := h.notBack
-  unfold zeroWidthOk isBoundary wordBefore wordAt
-  simp only [OP_WORD_BOUNDARY, OP_NON_WORD_BOUNDARY, Nat.reduceEqDiff, true_or, if_true, if_false, hb, Bool.false_eq_true]
-  rw [charOk_narrow rfl, charOk_narrow rfl, hinp, hcs]
-  have hsf : (specFlags e.fl).cs = 1 := rfl
-  rw [hsf]
-  unfold isWordCharAt
-  generalize hq : e.start + bm = q at hbb
-  by_cases h0 : q = 0
-  · subst h0
-    have c1 : decide (((0:Nat):Int) - ((1:Nat):Int) ≥ 0) = false := by simp
-    have c4 : decide (1 ≤ 0) = false := by simp
-    rw [c1, c4]
-    simp
-    congr 1
-    apply decide_eq_decide.2
-    omega
-  · have h1 : 1 ≤ q := by omega
-    have e1 : ((q : Int) - ((1:Nat):Int)) = ((q - 1 : Nat) : Int) := by omega
-    simp only [e1]
-    have c1 : decide ((((q - 1 : Nat) : Int)) + ((1:Nat):Int) ≤ (e.buf.size : Int)) = true := by simp; omega
-    have c2 : decide ((((q - 1 : Nat) : Int)) ≥ 0) = true := by simp
-    have c3 : decide (q - 1 < e.buf.size) = true := by simp; omega
-    have c4 : decide (1 ≤ q) = true := by simp; omega
-    rw [c1, c2, c3, c4]
-    by_cases h2 : q < e.buf.size
-    · have d1 : decide ((q : Int) + ((1:Nat):Int) ≤ (e.buf.size : Int)) = true := by simp; omega
-      have d2 : decide ((q : Int) ≥ 0) = true := by simp
-      have d3 : decide (q < e.buf.size) = true := by simp; omega
-      rw [d1, d2, d3]
-      simp
-    · have d1 : decide ((q : Int) + ((1:Nat):Int) ≤ (e.buf.size : Int)) = false := by simp; omega
-      have d3 : decide (q < e.buf.size) = false := by simp; omega
-      rw [d1, d3]
-      simp
-
-theorem zw_nonboundary (e : Env) (bm : Nat) : zeroWidthOk e bm OP_NON_WORD_BOUNDARY = !zeroWidthOk e bm OP_WORD_BOUNDARY := by
-  unfold zeroWidthOk
-  simp [OP_WORD_BOUNDARY, OP_NON_WORD_BOUNDARY]
-
-/-! ### one machine step inside a segment keeps the continuation invariant -/
-def modeAfter (stop : Bool) : Mode := if stop then .wait else .run
-def modeCons (code : Code) (f : Fiber) : Mode :=
-  if u8 code f.ip = OP_REPEAT_ANY_GREEDY ∨ u8 code f.ip = OP_REPEAT_ANY_UNGREEDY then .post else .run
-
-def StepOK (e : Env) (r : Re) (a b : Nat) (K : Lang) (f : Fiber) (m : Mode) : Prop :=
-  (∀ g, EStep e.code f g → m ≠ .wait → (Valid r a g.ip g.rc .run ∨ AtEnd b g .run) ∧
-      ∀ q q', lang (specFlags e.fl) e.buf r a K g.ip g.rc .run q q' → lang (specFlags e.fl) e.buf r a K f.ip f.rc m q q') ∧
-  (∀ g stop, AStep e.code f g stop → m ≠ .wait → (Valid r a g.ip g.rc (modeAfter stop) ∨ AtEnd b g (modeAfter stop)) ∧
-      ∀ q q', lang (specFlags e.fl) e.buf r a K g.ip g.rc (modeAfter stop) q q' → lang (specFlags e.fl) e.buf r a K f.ip f.rc m q q') ∧
-  (∀ bm, isConsuming (u8 e.code f.ip) = true → consumeOk e bm f = true → (isAnyOp (u8 e.code f.ip) → m = .wait) → m ≠ .post →
-      (Valid r a (advance e.code f).ip (advance e.code f).rc (modeCons e.code f) ∨ AtEnd b (advance e.code f) (modeCons e.code f)) ∧
-      ∀ q', lang (specFlags e.fl) e.buf r a K (advance e.code f).ip (advance e.code f).rc (modeCons e.code f) (e.start + bm + 1) q' →
-        lang (specFlags e.fl) e.buf r a K f.ip f.rc m (e.start + bm) q') ∧
-  (u8 e.code f.ip ≠ OP_MATCH) ∧
-  (∀ bm, e.start + bm ≤ e.buf.size → isConsuming (u8 e.code f.ip) = false → zeroWidthOk e bm (u8 e.code f.ip) = true →
-      (Valid r a (f.ip + 1) f.rc .run ∨ AtEnd b { f with ip := f.ip + 1 } .run) ∧
-      ∀ q', lang (specFlags e.fl) e.buf r a K (f.ip + 1) f.rc .run (e.start + bm) q' →
-        lang (specFlags e.fl) e.buf r a K f.ip f.rc m (e.start + bm) q')
-
-theorem zw_split_false (e : Env) (bm : Nat) {op : Nat} (h : op = OP_SPLIT_A ∨ op = OP_SPLIT_B ∨ op = OP_JUMP) : zeroWidthOk e bm op = false := by
-  rcases h with h | h | h <;> subst h <;>
-    simp [zeroWidthOk, OP_SPLIT_A, OP_SPLIT_B, OP_JUMP, OP_WORD_BOUNDARY, OP_NON_WORD_BOUNDARY, OP_MATCH_AT_START, OP_MATCH_AT_END]
-
-theorem advance_ip {code : Code} {f : Fiber} {op : Nat} (hop : u8 code f.ip = op)
-    (hn : ¬ (op = OP_REPEAT_ANY_GREEDY ∨ op = OP_REPEAT_ANY_UNGREEDY)) : advance code f = { f with ip := f.ip + sizeOfInstr op } := by
-  unfold advance
-  rw [hop, if_neg hn]
-
-theorem leaf_step (e : Env) (r : Re) (a n : Nat) (K : Lang) (f : Fiber) (m : Mode) (op : Nat)
-    (hip : f.ip = a) (hrc : f.rc = -1) (hmode : m = .run) (hop : u8 e.code a = op)
-    (hcons : isConsuming op = true) (hnctl : ¬ isCtl op) (hnany : ¬ (op = OP_REPEAT_ANY_GREEDY ∨ op = OP_REPEAT_ANY_UNGREEDY))
-    (hnm : op ≠ OP_MATCH) (hsz : sizeOfInstr op = n) (hn : 0 < n)
-    (hlang : ∀ ip rc md, lang (specFlags e.fl) e.buf r a K ip rc md =
-      if ip = a then (fun q q' => ∃ t, Re.Matches (specFlags e.fl) e.buf r q t ∧ K t q') else K)
-    (hm : ∀ bm, consumeOk e bm f = true → Re.Matches (specFlags e.fl) e.buf r (e.start + bm) (e.start + bm + 1)) :
-    StepOK e r a (a + n) K f m := by
-  have hopf : u8 e.code f.ip = op := by rw [hip]; exact hop
-  refine ⟨?_, ?_, ?_, ?_, ?_⟩
-  · intro g hg
-    exfalso
-    apply hnctl
-    rw [← hopf]; exact estep_ctl hg
-  · intro g st hg
-    exfalso
-    exact no_astep hg (by rw [hopf]; exact hnany)
-  · intro bm _ hc _ _
-    have hadv := advance_ip hopf hnany
-    have hmc : modeCons e.code f = .run := by unfold modeCons; rw [hopf, if_neg hnany]
-    rw [hadv, hmc]
-    simp only
-    refine ⟨.inr ⟨by rw [hip, hsz], hrc, rfl⟩, ?_⟩
-    intro q' hq'
-    rw [hip, hsz, hlang] at hq'
-    have hne : ¬ (a + n = a) := by omega
-    rw [if_neg hne] at hq'
-    rw [hip, hlang, if_pos rfl]
-    exact ⟨_, hm bm hc, hq'⟩
-  · rw [hopf]; exact hnm
-  · intro bm _ hnc
-    rw [hopf, hcons] at hnc; simp at hnc
-
-theorem zw_step (e : Env) (r : Re) (a : Nat) (K : Lang) (f : Fiber) (m : Mode) (op : Nat)
-    (hip : f.ip = a) (hrc : f.rc = -1) (hmode : m = .run) (hop : u8 e.code a = op)
-    (hncons : isConsuming op = false) (hnctl : ¬ isCtl op) (hnany : ¬ (op = OP_REPEAT_ANY_GREEDY ∨ op = OP_REPEAT_ANY_UNGREEDY))
-    (hnm : op ≠ OP_MATCH)
-    (hlang : ∀ ip rc md, lang (specFlags e.fl) e.buf r a K ip rc md =
-      if ip = a then (fun q q' => ∃ t, Re.Matches (specFlags e.fl) e.buf r q t ∧ K t q') else K)
-    (hm : ∀ bm, e.start + bm ≤ e.buf.size → zeroWidthOk e bm op = true →
-      Re.Matches (specFlags e.fl) e.buf r (e.start + bm) (e.start + bm)) :
-    StepOK e r a (a + 1) K f m := by
-  have hopf : u8 e.code f.ip = op := by rw [hip]; exact hop
-  refine ⟨?_, ?_, ?_, ?_, ?_⟩
-  · intro g hg
-    exfalso
-    apply hnctl
-    rw [← hopf]; exact estep_ctl hg
-  · intro g st hg
-    exfalso
-    exact no_astep hg (by rw [hopf]; exact hnany)
-  · intro bm hc
-    rw [hopf, hncons] at hc; simp at hc
-  · rw [hopf]; exact hnm
-  · intro bm hb _ hz
-    rw [hopf] at hz
-    refine ⟨.inr ⟨by simp [hip], hrc, rfl⟩, ?_⟩
-    intro q' hq'
-    rw [hip, hlang] at hq'
-    have hne : ¬ (a + 1 = a) := by omega
-    rw [if_neg hne] at hq'
-    rw [hip, hlang, if_pos rfl]
-    exact ⟨_, hm bm hb hz, hq'⟩
-
-/-- a spinning REPEAT_ANY accepts one character -/
-theorem consume_anyrep {e : Env} (h : FwdByte e) {bm : Nat} {f : Fiber}
-    (hop : u8 e.code f.ip = OP_REPEAT_ANY_GREEDY ∨ u8 e.code f.ip = OP_REPEAT_ANY_UNGREEDY) (hc : consumeOk e bm f = true) :
-    e.start + bm + 1 ∈ step (specFlags e.fl) e.buf (testAny (specFlags e.fl)) (e.start + bm) := by
-  have hq := consume_in_buf h hc
-  have ht := consumeTest_of h hc
-  rw [mem_step]
-  refine ⟨?_, by rw [specFlags_cs]⟩
-  apply charOk_of rfl hq
-  unfold consumeTest at ht
-  have : (u8 e.code f.ip = OP_ANY ∨ u8 e.code f.ip = OP_REPEAT_ANY_GREEDY ∨ u8 e.code f.ip = OP_REPEAT_ANY_UNGREEDY) := .inr hop
-  simp only [this, if_true] at ht
-  unfold testAny specFlags
-  exact ht
-
-theorem rc0_neg : rc0 (-1) = 0 := by simp [rc0]
-theorem rc0_natCast (n : Nat) : rc0 ((n : Nat) : Int) = n := by
-  unfold rc0
-  have : ¬ ((n : Int) = -1) := by omega
-  rw [if_neg this]; omega
-theorem rc0_pos {k : Int} (h : 1 ≤ k) : ((rc0 k : Nat) : Int) = k := by
-  unfold rc0
-  have : ¬ k = -1 := by omega
-  rw [if_neg this]; omega
-
-theorem jump_step (e : Env) (h : FwdByte e) (a lo hi : Nat) (g : Bool) (K : Lang) (f : Fiber) (m : Mode)
-    (hop : u8 e.code a = OP_REPEAT_ANY_GREEDY ∨ u8 e.code a = OP_REPEAT_ANY_UNGREEDY)
-    (hlo : u16 e.code (a + 1) = lo) (hhi : u16 e.code (a + 3) = hi) (hlh : lo ≤ hi)
-    (hv : Valid (.rangeAny lo hi g) a f.ip f.rc m) : StepOK e (.rangeAny lo hi g) a (a + 5) K f m := by
-  simp only [Valid] at hv
-  obtain ⟨hip, hst⟩ := hv
-  have hopf : u8 e.code f.ip = OP_REPEAT_ANY_GREEDY ∨ u8 e.code f.ip = OP_REPEAT_ANY_UNGREEDY := by rw [hip]; exact hop
-  -- the counter as a natural number
-  have hrcc : ((if f.rc = -1 then (0 : Int) else f.rc) = (rc0 f.rc : Nat)) := by
-    rcases hst with ⟨_, h1⟩ | ⟨_, h1, _⟩
-    · rw [h1]; simp [rc0]
-    · have : ¬ f.rc = -1 := by omega
-      rw [if_neg this, rc0_pos h1]
-  have hbound : rc0 f.rc ≤ hi := by
-    rcases hst with ⟨_, h1⟩ | ⟨_, h1, h2⟩
-    · rw [h1, rc0_neg]; omega
-    · have := rc0_pos h1; omega
-  refine ⟨?_, ?_, ?_, ?_, ?_⟩
-  · intro g' hg
-    exact absurd hg (fun hh => no_estep_any hh hopf)
-  · intro g' stop hg hmw
-    cases hg with
-    | spin _ hcond =>
-      rw [hip, hlo, hhi, hrcc] at hcond
-      have hlt : rc0 f.rc < hi := by omega
-      simp only [modeAfter, if_true]
-      have hnew : ((if f.rc = -1 then (0 : Int) else f.rc) + 1) = ((rc0 f.rc + 1 : Nat) : Int) := by rw [hrcc]; omega
-      refine ⟨.inl ?_, ?_⟩
-      · simp only [Valid]
-        refine ⟨hip, .inr ⟨by simp, ?_, ?_⟩⟩
-        · rw [hnew]; omega
-        · rw [hnew]; omega
-      · intro q q' hq
-        simp only [lang, hip, if_true] at hq ⊢
-        rw [hnew] at hq
-        have hr : rc0 ((rc0 f.rc + 1 : Nat) : Int) = rc0 f.rc + 1 := rc0_natCast _
-        rw [hr] at hq
-        obtain ⟨j, t, h1, h2, h3, hp, hk⟩ := hq
-        have key : ∃ j t, lo ≤ rc0 f.rc + j ∧ rc0 f.rc + j ≤ hi ∧ Path (step (specFlags e.fl) e.buf (testAny (specFlags e.fl))) j q t ∧ K t q' :=
-          ⟨j, t, by omega, by omega, hp, hk⟩
-        cases m with
-        | run => exact key
-        | wait => exact absurd rfl hmw
-        | post => exact key
-    | cont _ hcond =>
-      rw [hip, hlo, hrcc] at hcond
-      simp only [modeAfter]
-      refine ⟨.inr ⟨by simp [hip], rfl, rfl⟩, ?_⟩
-      intro q q' hq
-      have hne : ¬ (a + 5 = a) := by omega
-      simp only [lang, hip, if_true] at hq ⊢
-      rw [if_neg hne] at hq
-      have key : ∃ j t, lo ≤ rc0 f.rc + j ∧ rc0 f.rc + j ≤ hi ∧ Path (step (specFlags e.fl) e.buf (testAny (specFlags e.fl))) j q t ∧ K t q' :=
-        ⟨0, q, by omega, by omega, .nil, hq⟩
-      cases m with
-      | run => exact key
-      | wait => exact absurd rfl hmw
-      | post => exact key
-  · intro bm _ hc hmw hmp
-    have hwait : m = .wait := hmw hopf
-    have hadv : advance e.code f = f := by unfold advance; rw [if_pos hopf]
-    have hmc : modeCons e.code f = .post := by unfold modeCons; rw [if_pos hopf]
-    rw [hadv, hmc]
-    have hrc1 : 1 ≤ f.rc ∧ f.rc ≤ hi := by
-      rcases hst with ⟨h1, _⟩ | ⟨_, h1, h2⟩
-      · rw [hwait] at h1; simp at h1
-      · exact ⟨h1, h2⟩
-    refine ⟨.inl ?_, ?_⟩
-    · simp only [Valid]
-      exact ⟨hip, .inr ⟨by simp, hrc1.1, hrc1.2⟩⟩
-    · intro q' hq
-      subst hwait
-      simp only [lang, hip, if_true] at hq ⊢
-      obtain ⟨j, t, h1, h2, hp, hk⟩ := hq
-      have hk1 : 1 ≤ rc0 f.rc := by have := rc0_pos hrc1.1; omega
-      exact ⟨j + 1, t, by omega, by omega, by omega, .cons (consume_anyrep h hopf hc) hp, hk⟩
-  · rcases hopf with h1 | h1 <;> rw [h1] <;> simp [OP_REPEAT_ANY_GREEDY, OP_REPEAT_ANY_UNGREEDY, OP_MATCH]
-  · intro bm _ hnc
-    exfalso
-    rcases hopf with h1 | h1 <;> rw [h1] at hnc <;> simp [isConsuming, OP_REPEAT_ANY_GREEDY, OP_REPEAT_ANY_UNGREEDY, OP_ANY] at hnc
-
-theorem seg_step (e : Env) (h : FwdByte e) {r : Re} {a b : Nat} (hs : Seg e.code r a b) :
-    ∀ (K : Lang) (f : Fiber) (md : Mode), Valid r a f.ip f.rc md → StepOK e r a b K f md := by
-  induction hs with
-  | @lit a b h1 h2 =>
-    intro K f md hst
-    simp only [Valid] at hst
-    exact leaf_step e (.lit b) a 2 K f md OP_LITERAL hst.1 hst.2.1 hst.2.2 h1 (by decide) (by unfold isCtl; decide) (by decide) (by decide) (by decide) (by omega)
-      (fun ip rc md => by simp [lang]) (fun bm hc => consume_lit h (by rw [hst.1]; exact h1) (by rw [hst.1]; exact h2) hc)
-  | @notLit a b h1 h2 =>
-    intro K f md hst
-    simp only [Valid] at hst
-    exact leaf_step e (.notLit b) a 2 K f md OP_NOT_LITERAL hst.1 hst.2.1 hst.2.2 h1 (by decide) (by unfold isCtl; decide) (by decide) (by decide) (by decide) (by omega)
-      (fun ip rc md => by simp [lang]) (fun bm hc => consume_notLit h (by rw [hst.1]; exact h1) (by rw [hst.1]; exact h2) hc)
-  | @masked a v m h1 h2 h3 =>
-    intro K f md hst
-    simp only [Valid] at hst
-    exact leaf_step e (.masked v m) a 3 K f md OP_MASKED_LITERAL hst.1 hst.2.1 hst.2.2 h1 (by decide) (by unfold isCtl; decide) (by decide) (by decide) (by decide) (by omega)
-      (fun ip rc md => by simp [lang]) (fun bm hc => consume_masked h (by rw [hst.1]; exact h1) (by rw [hst.1]; exact h2) (by rw [hst.1]; exact h3) hc)
-  | @maskedNot a v m h1 h2 h3 =>
-    intro K f md hst
-    simp only [Valid] at hst
-    exact leaf_step e (.maskedNot v m) a 3 K f md OP_MASKED_NOT_LITERAL hst.1 hst.2.1 hst.2.2 h1 (by decide) (by unfold isCtl; decide) (by decide) (by decide) (by decide) (by omega)
-      (fun ip rc md => by simp [lang]) (fun bm hc => consume_maskedNot h (by rw [hst.1]; exact h1) (by rw [hst.1]; exact h2) (by rw [hst.1]; exact h3) hc)
-  | @any a h1 =>
-    intro K f md hst
-    simp only [Valid] at hst
-    exact leaf_step e .any a 1 K f md OP_ANY hst.1 hst.2.1 hst.2.2 h1 (by decide) (by unfold isCtl; decide) (by decide) (by decide) (by decide) (by omega)
-      (fun ip rc md => by simp [lang]) (fun bm hc => consume_any h (by rw [hst.1]; exact h1) hc)
-  | @cls a cb neg h1 h2 h3 =>
-    intro K f md hst
-    simp only [Valid] at hst
-    exact leaf_step e (.cls cb neg) a 34 K f md OP_CLASS hst.1 hst.2.1 hst.2.2 h1 (by decide) (by unfold isCtl; decide) (by decide) (by decide) (by decide) (by omega)
-      (fun ip rc md => by simp [lang]) (fun bm hc => consume_cls h (by rw [hst.1]; exact h1) (by rw [hst.1]; exact h2) (by rw [hst.1]; exact h3) hc)
-  | @wordCh a h1 =>
-    intro K f md hst
-    simp only [Valid] at hst
-    exact leaf_step e .wordCh a 1 K f md OP_WORD_CHAR hst.1 hst.2.1 hst.2.2 h1 (by decide) (by unfold isCtl; decide) (by decide) (by decide) (by decide) (by omega)
-      (fun ip rc md => by simp [lang]) (fun bm hc => consume_wordCh h (by rw [hst.1]; exact h1) hc)
-  | @nonWordCh a h1 =>
-    intro K f md hst
-    simp only [Valid] at hst
-    exact leaf_step e .nonWordCh a 1 K f md OP_NON_WORD_CHAR hst.1 hst.2.1 hst.2.2 h1 (by decide) (by unfold isCtl; decide) (by decide) (by decide) (by decide) (by omega)
-      (fun ip rc md => by simp [lang]) (fun bm hc => consume_nonWordCh h (by rw [hst.1]; exact h1) hc)
-  | @space a h1 =>
-    intro K f md hst
-    simp only [Valid] at hst
-    exact leaf_step e .space a 1 K f md OP_SPACE hst.1 hst.2.1 hst.2.2 h1 (by decide) (by unfold isCtl; decide) (by decide) (by decide) (by decide) (by omega)
-      (fun ip rc md => by simp [lang]) (fun bm hc => consume_space h (by rw [hst.1]; exact h1) hc)
-  | @nonSpace a h1 =>
-    intro K f md hst
-    simp only [Valid] at hst
-    exact leaf_step e .nonSpace a 1 K f md OP_NON_SPACE hst.1 hst.2.1 hst.2.2 h1 (by decide) (by unfold isCtl; decide) (by decide) (by decide) (by decide) (by omega)
-      (fun ip rc md => by simp [lang]) (fun bm hc => consume_nonSpace h (by rw [hst.1]; exact h1) hc)
-  | @digit a h1 =>
-    intro K f md hst
-    simp only [Valid] at hst
-    exact leaf_step e .digit a 1 K f md OP_DIGIT hst.1 hst.2.1 hst.2.2 h1 (by decide) (by unfold isCtl; decide) (by decide) (by decide) (by decide) (by omega)
-      (fun ip rc md => by simp [lang]) (fun bm hc => consume_digit h (by rw [hst.1]; exact h1) hc)
-  | @nonDigit a h1 =>
-    intro K f md hst
-    simp only [Valid] at hst
-    exact leaf_step e .nonDigit a 1 K f md OP_NON_DIGIT hst.1 hst.2.1 hst.2.2 h1 (by decide) (by unfold isCtl; decide) (by decide) (by decide) (by decide) (by omega)
-      (fun ip rc md => by simp [lang]) (fun bm hc => consume_nonDigit h (by rw [hst.1]; exact h1) hc)
-  | @bol a h1 =>
-    intro K f md hst
-    simp only [Valid] at hst
-    exact zw_step e .bol a K f md OP_MATCH_AT_START hst.1 hst.2.1 hst.2.2 h1 (by decide) (by unfold isCtl; decide) (by decide) (by decide)
-      (fun ip rc md => by simp [lang]) (fun bm _ hz => by rw [zw_bol h hz]; exact .bol)
-  | @eol a h1 =>
-    intro K f md hst
-    simp only [Valid] at hst
-    exact zw_step e .eol a K f md OP_MATCH_AT_END hst.1 hst.2.1 hst.2.2 h1 (by decide) (by unfold isCtl; decide) (by decide) (by decide)
-      (fun ip rc md => by simp [lang]) (fun bm hb hz => by rw [zw_eol h hb hz]; exact .eol)
-  | @wordB a h1 =>
-    intro K f md hst
-    simp only [Valid] at hst
-    exact zw_step e .wordB a K f md OP_WORD_BOUNDARY hst.1 hst.2.1 hst.2.2 h1 (by decide) (by unfold isCtl; decide) (by decide) (by decide)
-      (fun ip rc md => by simp [lang]) (fun bm hb hz => .wordB (by rw [← zw_boundary h hb]; exact hz))
-  | @nonWordB a h1 =>
-    intro K f md hst
-    simp only [Valid] at hst
-    exact zw_step e .nonWordB a K f md OP_NON_WORD_BOUNDARY hst.1 hst.2.1 hst.2.2 h1 (by decide) (by unfold isCtl; decide) (by decide) (by decide)
-      (fun ip rc md => by simp [lang]) (fun bm hb hz => .nonWordB (by
-        rw [zw_nonboundary, zw_boundary h hb] at hz
-        simpa using hz))
-  | @jump a lo hi g h1 h2 h3 h4 =>
-    intro K f md hst
-    exact jump_step e h a lo hi g K f md h1 h2 h3 h4 hst
-  | @star x a m g o1 o2 s1 o3 o4 ih =>
-    intro K f md hst
-    have hm : m = a + 4 + clen x := by have := s1.len; omega
-    have p1 := s1.pos
-    simp only [Valid] at hst
-    rw [← hm] at hst
-    -- the language at the loop head
-    obtain ⟨SK, hSK⟩ : ∃ SK : Lang, SK = fun q q' => ∃ t, Re.Matches (specFlags e.fl) e.buf (.star x g) q t ∧ K t q' := ⟨_, rfl⟩
-    have hla : ∀ rc md, lang (specFlags e.fl) e.buf (.star x g) a K a rc md = SK := by
-      intro rc md; simp only [lang, if_true]; rw [hSK]
-    have hlx : ∀ ip rc md, a < ip → ip < m → lang (specFlags e.fl) e.buf (.star x g) a K ip rc md = lang (specFlags e.fl) e.buf x (a + 4) SK ip rc md := by
-      intro ip rc md h1 h2; simp only [lang]; rw [← hm, if_neg (by omega), if_pos h2, hSK]
-    have hlm : ∀ rc md, lang (specFlags e.fl) e.buf (.star x g) a K m rc md = SK := by
-      intro rc md; simp only [lang]; rw [← hm, if_neg (by omega), if_neg (by omega), if_pos rfl, hSK]
-    have hlb : ∀ rc md, lang (specFlags e.fl) e.buf (.star x g) a K (m + 3) rc md = K := fun rc md =>
-      lang_end _ _ (Seg.star (g := g) o1 o2 s1 o3 o4) K rc md
-    have hxm : ∀ rc md, lang (specFlags e.fl) e.buf x (a + 4) SK m rc md = SK := fun rc md => lang_end _ _ s1 _ rc md
-    have liftx : ∀ (g' : Fiber) (md' : Mode), (Valid x (a + 4) g'.ip g'.rc md' ∨ AtEnd m g' md') →
-        (Valid (.star x g) a g'.ip g'.rc md' ∨ AtEnd (m + 3) g' md') ∧
-        lang (specFlags e.fl) e.buf (.star x g) a K g'.ip g'.rc md' = lang (specFlags e.fl) e.buf x (a + 4) SK g'.ip g'.rc md' := by
-      intro g' md' hg
-      rcases hg with h1 | ⟨h1, h2, h3⟩
-      · have r := valid_range s1 h1
-        exact ⟨.inl (.inr (.inl h1)), hlx _ _ _ (by omega) r.2⟩
-      · subst h3
-        exact ⟨.inl (.inr (.inr ⟨by rw [h1, hm], h2, rfl⟩)), by rw [h1, hlm, hxm]⟩
-    rcases hst with hst | hst | hst
-    · -- the split at the loop head
-      obtain ⟨hip, hrc, hmd⟩ := hst
-      have hop : u8 e.code f.ip = OP_SPLIT_A ∨ u8 e.code f.ip = OP_SPLIT_B := by rw [hip]; exact o1
-      have hnany : ¬ (u8 e.code f.ip = OP_REPEAT_ANY_GREEDY ∨ u8 e.code f.ip = OP_REPEAT_ANY_UNGREEDY) := by
-        rcases hop with h1 | h1 <;> rw [h1] <;> decide
-      refine ⟨?_, ?_, ?_, by rcases hop with h1 | h1 <;> rw [h1] <;> decide, fun bm _ _ hz => by
-        rw [zw_split_false e bm (by rcases hop with h1 | h1; exact .inl h1; exact .inr (.inl h1))] at hz; simp at hz⟩
-      · intro g' hg _
-        rcases estep_split hg hop with rfl | rfl
-        · obtain ⟨l1, l2⟩ := liftx { f with ip := f.ip + 4 } .run (.inl (by simp only; rw [hip, hrc]; exact valid_first s1))
-          refine ⟨l1, ?_⟩
-          intro q q' hq
-          rw [hip, hla]; rw [l2] at hq
-          simp only at hq
-          rw [hip, hrc] at hq
-          obtain ⟨t, ht, hk⟩ := lang_entry _ _ s1 SK _ _ hq
-          rw [hSK] at hk ⊢
-          obtain ⟨t2, ht2, hk2⟩ := hk
-          exact ⟨t2, .starStep ht ht2, hk2⟩
-        · refine ⟨.inr ⟨by simp only; rw [hip, o2], hrc, rfl⟩, ?_⟩
-          intro q q' hq
-          simp only at hq
-          rw [hip, o2, hlb] at hq
-          rw [hip, hla, hSK]
-          exact ⟨q, .starNil, hq⟩
-      · intro g' stop hg _
-        exact absurd hg (fun hh => no_astep hh hnany)
-      · intro bm hc
-        rcases hop with h1 | h1 <;> rw [h1] at hc <;> simp [isConsuming, OP_SPLIT_A, OP_SPLIT_B, OP_JUMP, OP_ANY, OP_REPEAT_ANY_GREEDY, OP_REPEAT_ANY_UNGREEDY, OP_LITERAL, OP_NOT_LITERAL, OP_MASKED_LITERAL,
-          OP_MASKED_NOT_LITERAL, OP_CLASS, OP_WORD_CHAR, OP_NON_WORD_CHAR, OP_SPACE, OP_NON_SPACE, OP_DIGIT, OP_NON_DIGIT] at hc
-    · have r := valid_range s1 hst
-      obtain ⟨e1, e2, e3, e4, e5⟩ := ih SK f md hst
-      refine ⟨?_, ?_, ?_, e4, ?_⟩
-      · intro g' hg hmw
-        obtain ⟨g1, g2⟩ := e1 g' hg hmw
-        obtain ⟨l1, l2⟩ := liftx g' .run g1
-        refine ⟨l1, ?_⟩
-        intro q q' hq
-        rw [hlx _ _ _ (by omega) r.2]; rw [l2] at hq; exact g2 q q' hq
-      · intro g' stop hg hmw
-        obtain ⟨g1, g2⟩ := e2 g' stop hg hmw
-        obtain ⟨l1, l2⟩ := liftx g' _ g1
-        refine ⟨l1, ?_⟩
-        intro q q' hq
-        rw [hlx _ _ _ (by omega) r.2]; rw [l2] at hq; exact g2 q q' hq
-      · intro bm hc1 hc2 hc3 hc4
-        obtain ⟨g1, g2⟩ := e3 bm hc1 hc2 hc3 hc4
-        obtain ⟨l1, l2⟩ := liftx _ _ g1
-        refine ⟨l1, ?_⟩
-        intro q' hq
-        rw [hlx _ _ _ (by omega) r.2]; rw [l2] at hq; exact g2 q' hq
-      · intro bm hz0 hz1 hz2
-        obtain ⟨g1, g2⟩ := e5 bm hz0 hz1 hz2
-        obtain ⟨l1, l2⟩ := liftx { f with ip := f.ip + 1 } .run g1
-        refine ⟨l1, ?_⟩
-        intro q' hq
-        rw [hlx _ _ _ (by omega) r.2]; rw [l2] at hq; exact g2 q' hq
-    · -- the jump back to the loop head
-      obtain ⟨hip, hrc, hmd⟩ := hst
-      have hop : u8 e.code f.ip = OP_JUMP := by rw [hip]; exact o3
-      have hnany : ¬ (u8 e.code f.ip = OP_REPEAT_ANY_GREEDY ∨ u8 e.code f.ip = OP_REPEAT_ANY_UNGREEDY) := by
-        rw [hop]; decide
-      refine ⟨?_, ?_, ?_, by rw [hop]; decide, fun bm _ _ hz => by rw [hop, zw_split_false e bm (.inr (.inr rfl))] at hz; simp at hz⟩
-      · intro g' hg _
-        rw [estep_jump hg hop]
-        refine ⟨.inl (.inl ⟨by simp only; rw [hip, o4], hrc, rfl⟩), ?_⟩
-        intro q q' hq
-        simp only at hq
-        rw [hip, o4, hla] at hq
-        rw [hip, hlm]; exact hq
-      · intro g' stop hg _
-        exact absurd hg (fun hh => no_astep hh hnany)
-      · intro bm hc
-        rw [hop] at hc
-        simp [isConsuming, OP_SPLIT_A, OP_SPLIT_B, OP_JUMP, OP_ANY, OP_REPEAT_ANY_GREEDY, OP_REPEAT_ANY_UNGREEDY, OP_LITERAL, OP_NOT_LITERAL, OP_MASKED_LITERAL,
-          OP_MASKED_NOT_LITERAL, OP_CLASS, OP_WORD_CHAR, OP_NON_WORD_CHAR, OP_SPACE, OP_NON_SPACE, OP_DIGIT, OP_NON_DIGIT] at hc
-  | @opt x a m g o1 o2 s1 ih =>
-    intro K f md hst
-    have p1 := s1.pos
-    simp only [Valid] at hst
-    obtain ⟨OK, hOK⟩ : ∃ OK : Lang, OK = fun q q' => ∃ t, Re.Matches (specFlags e.fl) e.buf (.range x 0 1 g) q t ∧ K t q' := ⟨_, rfl⟩
-    have hla : ∀ rc md, lang (specFlags e.fl) e.buf (.range x 0 1 g) a K a rc md = OK := by
-      intro rc md; simp only [lang, if_true]; rw [hOK]
-    have hlx : ∀ ip rc md, a < ip → lang (specFlags e.fl) e.buf (.range x 0 1 g) a K ip rc md = lang (specFlags e.fl) e.buf x (a + 4) K ip rc md := by
-      intro ip rc md h1; simp only [lang]; rw [if_neg (by omega)]
-    have liftx : ∀ (g' : Fiber) (md' : Mode), (Valid x (a + 4) g'.ip g'.rc md' ∨ AtEnd m g' md') →
-        (Valid (.range x 0 1 g) a g'.ip g'.rc md' ∨ AtEnd m g' md') ∧
-        lang (specFlags e.fl) e.buf (.range x 0 1 g) a K g'.ip g'.rc md' = lang (specFlags e.fl) e.buf x (a + 4) K g'.ip g'.rc md' := by
-      intro g' md' hg
-      rcases hg with h1 | ⟨h1, h2, h3⟩
-      · have r := valid_range s1 h1
-        exact ⟨.inl (.inr h1), hlx _ _ _ (by omega)⟩
-      · exact ⟨.inr ⟨h1, h2, h3⟩, hlx _ _ _ (by rw [h1]; omega)⟩
-    rcases hst with hst | hst
-    · -- the split: into the body, or over it
-      obtain ⟨hip, hrc, hmd⟩ := hst
-      have hop : u8 e.code f.ip = OP_SPLIT_A ∨ u8 e.code f.ip = OP_SPLIT_B := by rw [hip]; exact o1
-      have hnany : ¬ (u8 e.code f.ip = OP_REPEAT_ANY_GREEDY ∨ u8 e.code f.ip = OP_REPEAT_ANY_UNGREEDY) := by
-        rcases hop with h1 | h1 <;> rw [h1] <;> decide
-      refine ⟨?_, ?_, ?_, by rcases hop with h1 | h1 <;> rw [h1] <;> decide, fun bm _ _ hz => by
-        rw [zw_split_false e bm (by rcases hop with h1 | h1; exact .inl h1; exact .inr (.inl h1))] at hz; simp at hz⟩
-      · intro g' hg _
-        rcases estep_split hg hop with rfl | rfl
-        · obtain ⟨l1, l2⟩ := liftx { f with ip := f.ip + 4 } .run (.inl (by simp only; rw [hip, hrc]; exact valid_first s1))
-          refine ⟨l1, ?_⟩
-          intro q q' hq
-          rw [hip, hla]; rw [l2] at hq
-          simp only at hq
-          rw [hip, hrc] at hq
-          obtain ⟨t, ht, hk⟩ := lang_entry _ _ s1 K _ _ hq
-          rw [hOK]
-          exact ⟨t, .rangeStep (by decide) ht .rangeStop, hk⟩
-        · refine ⟨.inr ⟨by simp only; rw [hip, o2], hrc, rfl⟩, ?_⟩
-          intro q q' hq
-          simp only at hq
-          rw [hip, o2, lang_end _ _ (Seg.opt (g := g) o1 o2 s1) K] at hq
-          rw [hip, hla, hOK]
-          exact ⟨q, .rangeStop, hq⟩
-      · intro g' stop hg _
-        exact absurd hg (fun hh => no_astep hh hnany)
-      · intro bm hc
-        rcases hop with h1 | h1 <;> rw [h1] at hc <;> simp [isConsuming, OP_SPLIT_A, OP_SPLIT_B, OP_JUMP, OP_ANY, OP_REPEAT_ANY_GREEDY, OP_REPEAT_ANY_UNGREEDY, OP_LITERAL, OP_NOT_LITERAL, OP_MASKED_LITERAL,
-          OP_MASKED_NOT_LITERAL, OP_CLASS, OP_WORD_CHAR, OP_NON_WORD_CHAR, OP_SPACE, OP_NON_SPACE, OP_DIGIT, OP_NON_DIGIT] at hc
-    · have r := valid_range s1 hst
-      obtain ⟨e1, e2, e3, e4, e5⟩ := ih K f md hst
-      refine ⟨?_, ?_, ?_, e4, ?_⟩
-      · intro g' hg hmw
-        obtain ⟨g1, g2⟩ := e1 g' hg hmw
-        obtain ⟨l1, l2⟩ := liftx g' .run g1
-        refine ⟨l1, ?_⟩
-        intro q q' hq
-        rw [hlx _ _ _ (by omega)]; rw [l2] at hq; exact g2 q q' hq
-      · intro g' stop hg hmw
-        obtain ⟨g1, g2⟩ := e2 g' stop hg hmw
-        obtain ⟨l1, l2⟩ := liftx g' _ g1
-        refine ⟨l1, ?_⟩
-        intro q q' hq
-        rw [hlx _ _ _ (by omega)]; rw [l2] at hq; exact g2 q q' hq
-      · intro bm hc1 hc2 hc3 hc4
-        obtain ⟨g1, g2⟩ := e3 bm hc1 hc2 hc3 hc4
-        obtain ⟨l1, l2⟩ := liftx _ _ g1
-        refine ⟨l1, ?_⟩
-        intro q' hq
-        rw [hlx _ _ _ (by omega)]; rw [l2] at hq; exact g2 q' hq
-      · intro bm hz0 hz1 hz2
-        obtain ⟨g1, g2⟩ := e5 bm hz0 hz1 hz2
-        obtain ⟨l1, l2⟩ := liftx { f with ip := f.ip + 1 } .run g1
-        refine ⟨l1, ?_⟩
-        intro q' hq
-        rw [hlx _ _ _ (by omega)]; rw [l2] at hq; exact g2 q' hq
-  | @plus x a m g s1 o1 o2 ih =>
-    intro K f md hst
-    have hm : m = a + clen x := s1.len
-    have p1 := s1.pos
-    simp only [Valid] at hst
-    rw [← hm] at hst
-    obtain ⟨PK, hPK⟩ : ∃ PK : Lang, PK = fun q q' => K q q' ∨ ∃ t, Re.Matches (specFlags e.fl) e.buf (.plus x g) q t ∧ K t q' := ⟨_, rfl⟩
-    have hlx : ∀ ip rc md, ip < m → lang (specFlags e.fl) e.buf (.plus x g) a K ip rc md = lang (specFlags e.fl) e.buf x a PK ip rc md := by
-      intro ip rc md h2; simp only [lang]; rw [← hm, if_pos h2, hPK]
-    have hlm : ∀ rc md, lang (specFlags e.fl) e.buf (.plus x g) a K m rc md = PK := by
-      intro rc md; simp only [lang]; rw [← hm, if_neg (by omega), if_pos rfl, hPK]
-    have hlb : ∀ rc md, lang (specFlags e.fl) e.buf (.plus x g) a K (m + 4) rc md = K := fun rc md =>
-      lang_end _ _ (Seg.plus (g := g) s1 o1 o2) K rc md
-    have hxm : ∀ rc md, lang (specFlags e.fl) e.buf x a PK m rc md = PK := fun rc md => lang_end _ _ s1 _ rc md
-    have liftx : ∀ (g' : Fiber) (md' : Mode), (Valid x a g'.ip g'.rc md' ∨ AtEnd m g' md') →
-        (Valid (.plus x g) a g'.ip g'.rc md' ∨ AtEnd (m + 4) g' md') ∧
-        lang (specFlags e.fl) e.buf (.plus x g) a K g'.ip g'.rc md' = lang (specFlags e.fl) e.buf x a PK g'.ip g'.rc md' := by
-      intro g' md' hg
-      rcases hg with h1 | ⟨h1, h2, h3⟩
-      · have r := valid_range s1 h1
-        exact ⟨.inl (.inl h1), hlx _ _ _ r.2⟩
-      · subst h3
-        exact ⟨.inl (.inr ⟨by rw [h1, hm], h2, rfl⟩), by rw [h1, hlm, hxm]⟩
-    rcases hst with hst | hst
-    · have r := valid_range s1 hst
-      obtain ⟨e1, e2, e3, e4, e5⟩ := ih PK f md hst
-      refine ⟨?_, ?_, ?_, e4, ?_⟩
-      · intro g' hg hmw
-        obtain ⟨g1, g2⟩ := e1 g' hg hmw
-        obtain ⟨l1, l2⟩ := liftx g' .run g1
-        refine ⟨l1, ?_⟩
-        intro q q' hq
-        rw [hlx _ _ _ r.2]; rw [l2] at hq; exact g2 q q' hq
-      · intro g' stop hg hmw
-        obtain ⟨g1, g2⟩ := e2 g' stop hg hmw
-        obtain ⟨l1, l2⟩ := liftx g' _ g1
-        refine ⟨l1, ?_⟩
-        intro q q' hq
-        rw [hlx _ _ _ r.2]; rw [l2] at hq; exact g2 q q' hq
-      · intro bm hc1 hc2 hc3 hc4
-        obtain ⟨g1, g2⟩ := e3 bm hc1 hc2 hc3 hc4
-        obtain ⟨l1, l2⟩ := liftx _ _ g1
-        refine ⟨l1, ?_⟩
-        intro q' hq
-        rw [hlx _ _ _ r.2]; rw [l2] at hq; exact g2 q' hq
-      · intro bm hz0 hz1 hz2
-        obtain ⟨g1, g2⟩ := e5 bm hz0 hz1 hz2
-        obtain ⟨l1, l2⟩ := liftx { f with ip := f.ip + 1 } .run g1
-        refine ⟨l1, ?_⟩
-        intro q' hq
-        rw [hlx _ _ _ r.2]; rw [l2] at hq; exact g2 q' hq
-    · -- the split after the body
-      obtain ⟨hip, hrc, hmd⟩ := hst
-      have hop : u8 e.code f.ip = OP_SPLIT_A ∨ u8 e.code f.ip = OP_SPLIT_B := by rw [hip]; exact o1
-      have hnany : ¬ (u8 e.code f.ip = OP_REPEAT_ANY_GREEDY ∨ u8 e.code f.ip = OP_REPEAT_ANY_UNGREEDY) := by
-        rcases hop with h1 | h1 <;> rw [h1] <;> decide
-      refine ⟨?_, ?_, ?_, by rcases hop with h1 | h1 <;> rw [h1] <;> decide, fun bm _ _ hz => by
-        rw [zw_split_false e bm (by rcases hop with h1 | h1; exact .inl h1; exact .inr (.inl h1))] at hz; simp at hz⟩
-      · intro g' hg _
-        rcases estep_split hg hop with rfl | rfl
-        · refine ⟨.inr ⟨by simp only; rw [hip], hrc, rfl⟩, ?_⟩
-          intro q q' hq
-          simp only at hq
-          rw [hip, hlb] at hq
-          rw [hip, hlm, hPK]
-          exact .inl hq
-        · obtain ⟨l1, l2⟩ := liftx { f with ip := addOff f.ip (i16 e.code (f.ip + 2)) } .run
-            (.inl (by simp only; rw [hip, o2, hrc]; exact valid_first s1))
-          refine ⟨l1, ?_⟩
-          intro q q' hq
-          rw [l2] at hq
-          simp only at hq
-          rw [hip, o2, hrc] at hq
-          obtain ⟨t, ht, hk⟩ := lang_entry _ _ s1 PK _ _ hq
-          rw [hip, hlm]
-          rw [hPK] at hk ⊢
-          rcases hk with hk | ⟨t2, ht2, hk2⟩
-          · exact .inr ⟨t, .plusOne ht, hk⟩
-          · exact .inr ⟨t2, .plusStep ht ht2, hk2⟩
-      · intro g' stop hg _
-        exact absurd hg (fun hh => no_astep hh hnany)
-      · intro bm hc
-        rcases hop with h1 | h1 <;> rw [h1] at hc <;> simp [isConsuming, OP_SPLIT_A, OP_SPLIT_B, OP_JUMP, OP_ANY, OP_REPEAT_ANY_GREEDY, OP_REPEAT_ANY_UNGREEDY, OP_LITERAL, OP_NOT_LITERAL, OP_MASKED_LITERAL,
-          OP_MASKED_NOT_LITERAL, OP_CLASS, OP_WORD_CHAR, OP_NON_WORD_CHAR, OP_SPACE, OP_NON_SPACE, OP_DIGIT, OP_NON_DIGIT] at hc
-  | @cat x y a m b s1 s2 ih1 ih2 =>
-    intro K f md hst
-    have hm : m = a + clen x := s1.len
-    simp only [Valid] at hst
-    rw [← hm] at hst
-    have hlx : ∀ ip rc md, ip < m → lang (specFlags e.fl) e.buf (.cat x y) a K ip rc md =
-        lang (specFlags e.fl) e.buf x a (lang (specFlags e.fl) e.buf y m K m (-1) .run) ip rc md := by
-      intro ip rc md hip; simp only [lang]; rw [← hm, if_pos hip]
-    have hly : ∀ ip rc md, m ≤ ip → lang (specFlags e.fl) e.buf (.cat x y) a K ip rc md = lang (specFlags e.fl) e.buf y m K ip rc md := by
-      intro ip rc md hip; simp only [lang]; rw [← hm, if_neg (by omega)]
-    have hxm : ∀ rc md, lang (specFlags e.fl) e.buf x a (lang (specFlags e.fl) e.buf y m K m (-1) .run) m rc md =
-        lang (specFlags e.fl) e.buf y m K m (-1) .run := fun rc md => lang_end _ _ s1 _ rc md
-    -- successors of an instruction of x, seen from the concatenation
-    have liftx : ∀ (g : Fiber) (md' : Mode), (Valid x a g.ip g.rc md' ∨ AtEnd m g md') →
-        (Valid (.cat x y) a g.ip g.rc md' ∨ AtEnd b g md') ∧
-        lang (specFlags e.fl) e.buf (.cat x y) a K g.ip g.rc md' =
-          lang (specFlags e.fl) e.buf x a (lang (specFlags e.fl) e.buf y m K m (-1) .run) g.ip g.rc md' := by
-      intro g md' hg
-      rcases hg with h1 | ⟨h1, h2, h3⟩
-      · exact ⟨.inl (.inl h1), hlx _ _ _ (valid_range s1 h1).2⟩
-      · subst h3
-        refine ⟨.inl (.inr ?_), ?_⟩
-        · rw [← hm, h1, h2]; exact valid_first s2
-        · rw [h1, h2, hly _ _ _ (Nat.le_refl _), hxm]
-    have lifty : ∀ (g : Fiber) (md' : Mode), (Valid y m g.ip g.rc md' ∨ AtEnd b g md') →
-        (Valid (.cat x y) a g.ip g.rc md' ∨ AtEnd b g md') ∧
-        lang (specFlags e.fl) e.buf (.cat x y) a K g.ip g.rc md' = lang (specFlags e.fl) e.buf y m K g.ip g.rc md' := by
-      intro g md' hg
-      rcases hg with h1 | h1
-      · exact ⟨.inl (.inr (by rw [← hm]; exact h1)), hly _ _ _ (valid_range s2 h1).1⟩
-      · exact ⟨.inr h1, hly _ _ _ (by have := s2.pos; rw [h1.1]; omega)⟩
-    rcases hst with hst | hst
-    · have hlt := (valid_range s1 hst).2
-      obtain ⟨e1, e2, e3, e4, e5⟩ := ih1 (lang (specFlags e.fl) e.buf y m K m (-1) .run) f md hst
-      refine ⟨?_, ?_, ?_, e4, ?_⟩
-      · intro g hg hmw
-        obtain ⟨g1, g2⟩ := e1 g hg hmw
-        obtain ⟨l1, l2⟩ := liftx g .run g1
-        refine ⟨l1, ?_⟩
-        intro q q' hq
-        rw [hlx _ _ _ hlt]; rw [l2] at hq; exact g2 q q' hq
-      · intro g stop hg hmw
-        obtain ⟨g1, g2⟩ := e2 g stop hg hmw
-        obtain ⟨l1, l2⟩ := liftx g _ g1
-        refine ⟨l1, ?_⟩
-        intro q q' hq
-        rw [hlx _ _ _ hlt]; rw [l2] at hq; exact g2 q q' hq
-      · intro bm hc1 hc2 hc3 hc4
-        obtain ⟨g1, g2⟩ := e3 bm hc1 hc2 hc3 hc4
-        obtain ⟨l1, l2⟩ := liftx _ _ g1
-        refine ⟨l1, ?_⟩
-        intro q' hq
-        rw [hlx _ _ _ hlt]; rw [l2] at hq; exact g2 q' hq
-      · intro bm hz0 hz1 hz2
-        obtain ⟨g1, g2⟩ := e5 bm hz0 hz1 hz2
-        obtain ⟨l1, l2⟩ := liftx { f with ip := f.ip + 1 } .run g1
-        refine ⟨l1, ?_⟩
-        intro q' hq
-        rw [hlx _ _ _ hlt]; rw [l2] at hq; exact g2 q' hq
-    · have hge := (valid_range s2 hst).1
-      obtain ⟨e1, e2, e3, e4, e5⟩ := ih2 K f md hst
-      refine ⟨?_, ?_, ?_, e4, ?_⟩
-      · intro g hg hmw
-        obtain ⟨g1, g2⟩ := e1 g hg hmw
-        obtain ⟨l1, l2⟩ := lifty g .run g1
-        refine ⟨l1, ?_⟩
-        intro q q' hq
-        rw [hly _ _ _ hge]; rw [l2] at hq; exact g2 q q' hq
-      · intro g stop hg hmw
-        obtain ⟨g1, g2⟩ := e2 g stop hg hmw
-        obtain ⟨l1, l2⟩ := lifty g _ g1
-        refine ⟨l1, ?_⟩
-        intro q q' hq
-        rw [hly _ _ _ hge]; rw [l2] at hq; exact g2 q q' hq
-      · intro bm hc1 hc2 hc3 hc4
-        obtain ⟨g1, g2⟩ := e3 bm hc1 hc2 hc3 hc4
-        obtain ⟨l1, l2⟩ := lifty _ _ g1
-        refine ⟨l1, ?_⟩
-        intro q' hq
-        rw [hly _ _ _ hge]; rw [l2] at hq; exact g2 q' hq
-      · intro bm hz0 hz1 hz2
-        obtain ⟨g1, g2⟩ := e5 bm hz0 hz1 hz2
-        obtain ⟨l1, l2⟩ := lifty { f with ip := f.ip + 1 } .run g1
-        refine ⟨l1, ?_⟩
-        intro q' hq
-        rw [hly _ _ _ hge]; rw [l2] at hq; exact g2 q' hq
-  | @alt x y a m b o1 o2 s1 o3 o4 s2 ih1 ih2 =>
-    intro K f md hst
-    have hm : m = a + 4 + clen x := by have := s1.len; omega
-    have p1 := s1.pos
-    have p2 := s2.pos
-    simp only [Valid] at hst
-    rw [← hm] at hst
-    have hla : ∀ rc md, lang (specFlags e.fl) e.buf (.alt x y) a K a rc md = fun q q' =>
-        lang (specFlags e.fl) e.buf x (a + 4) K (a + 4) (-1) .run q q' ∨ lang (specFlags e.fl) e.buf y (m + 3) K (m + 3) (-1) .run q q' := by
-      intro rc md; simp only [lang, if_true]; rw [← hm]
-    have hlx : ∀ ip rc md, a < ip → ip < m → lang (specFlags e.fl) e.buf (.alt x y) a K ip rc md = lang (specFlags e.fl) e.buf x (a + 4) K ip rc md := by
-      intro ip rc md h1 h2; simp only [lang]; rw [← hm, if_neg (by omega), if_pos h2]
-    have hlm : ∀ rc md, lang (specFlags e.fl) e.buf (.alt x y) a K m rc md = K := by
-      intro rc md; simp only [lang]; rw [← hm, if_neg (by omega), if_neg (by omega), if_pos rfl]
-    have hly : ∀ ip rc md, m < ip → lang (specFlags e.fl) e.buf (.alt x y) a K ip rc md = lang (specFlags e.fl) e.buf y (m + 3) K ip rc md := by
-      intro ip rc md h1; simp only [lang]; rw [← hm, if_neg (by omega), if_neg (by omega), if_neg (by omega)]
-    have hxm : ∀ rc md, lang (specFlags e.fl) e.buf x (a + 4) K m rc md = K := fun rc md => lang_end _ _ s1 _ rc md
-    have hyb : ∀ rc md, lang (specFlags e.fl) e.buf y (m + 3) K b rc md = K := fun rc md => lang_end _ _ s2 _ rc md
-    have liftx : ∀ (g : Fiber) (md' : Mode), (Valid x (a + 4) g.ip g.rc md' ∨ AtEnd m g md') →
-        (Valid (.alt x y) a g.ip g.rc md' ∨ AtEnd b g md') ∧
-        lang (specFlags e.fl) e.buf (.alt x y) a K g.ip g.rc md' = lang (specFlags e.fl) e.buf x (a + 4) K g.ip g.rc md' := by
-      intro g md' hg
-      rcases hg with h1 | ⟨h1, h2, h3⟩
-      · have r := valid_range s1 h1
-        exact ⟨.inl (.inr (.inl h1)), hlx _ _ _ (by omega) r.2⟩
-      · subst h3
-        exact ⟨.inl (.inr (.inr (.inl ⟨by rw [h1, hm], h2, rfl⟩))), by rw [h1, hlm, hxm]⟩
-    have lifty : ∀ (g : Fiber) (md' : Mode), (Valid y (m + 3) g.ip g.rc md' ∨ AtEnd b g md') →
-        (Valid (.alt x y) a g.ip g.rc md' ∨ AtEnd b g md') ∧
-        lang (specFlags e.fl) e.buf (.alt x y) a K g.ip g.rc md' = lang (specFlags e.fl) e.buf y (m + 3) K g.ip g.rc md' := by
-      intro g md' hg
-      rcases hg with h1 | h1
-      · have r := valid_range s2 h1
-        exact ⟨.inl (.inr (.inr (.inr (by rw [← hm]; exact h1)))), hly _ _ _ (by omega)⟩
-      · exact ⟨.inr h1, hly _ _ _ (by rw [h1.1]; omega)⟩
-    rcases hst with hst | hst | hst | hst
-    · -- the split instruction
-      obtain ⟨hip, hrc, hmd⟩ := hst
-      have hop : u8 e.code f.ip = OP_SPLIT_A := by rw [hip]; exact o1
-      have hnany : ¬ (u8 e.code f.ip = OP_REPEAT_ANY_GREEDY ∨ u8 e.code f.ip = OP_REPEAT_ANY_UNGREEDY) := by
-        rw [hop]; simp [OP_SPLIT_A, OP_REPEAT_ANY_GREEDY, OP_REPEAT_ANY_UNGREEDY]
-      refine ⟨?_, ?_, ?_, by rw [hop]; decide, fun bm _ _ hz => by rw [hop, zw_split_false e bm (.inl rfl)] at hz; simp at hz⟩
-      · intro g hg _
-        rcases estep_split hg (.inl hop) with rfl | rfl
-        · obtain ⟨l1, l2⟩ := liftx { f with ip := f.ip + 4 } .run (.inl (by simp only; rw [hip, hrc]; exact valid_first s1))
-          refine ⟨l1, ?_⟩
-          intro q q' hq
-          rw [hip, hla]; rw [l2] at hq
-          simp only at hq
-          rw [hip, hrc] at hq
-          exact .inl hq
-        · obtain ⟨l1, l2⟩ := lifty { f with ip := addOff f.ip (i16 e.code (f.ip + 2)) } .run
-            (.inl (by simp only; rw [hip, o2, hrc]; exact valid_first s2))
-          refine ⟨l1, ?_⟩
-          intro q q' hq
-          rw [hip, hla]; rw [l2] at hq
-          simp only at hq
-          rw [hip, o2, hrc] at hq
-          exact .inr hq
-      · intro g stop hg _
-        exact absurd hg (fun hh => no_astep hh hnany)
-      · intro bm hc
-        rw [hop] at hc
-        simp [isConsuming, OP_SPLIT_A, OP_ANY, OP_REPEAT_ANY_GREEDY, OP_REPEAT_ANY_UNGREEDY, OP_LITERAL, OP_NOT_LITERAL, OP_MASKED_LITERAL,
-          OP_MASKED_NOT_LITERAL, OP_CLASS, OP_WORD_CHAR, OP_NON_WORD_CHAR, OP_SPACE, OP_NON_SPACE, OP_DIGIT, OP_NON_DIGIT] at hc
-    · have r := valid_range s1 hst
-      obtain ⟨e1, e2, e3, e4, e5⟩ := ih1 K f md hst
-      refine ⟨?_, ?_, ?_, e4, ?_⟩
-      · intro g hg hmw
-        obtain ⟨g1, g2⟩ := e1 g hg hmw
-        obtain ⟨l1, l2⟩ := liftx g .run g1
-        refine ⟨l1, ?_⟩
-        intro q q' hq
-        rw [hlx _ _ _ (by omega) r.2]; rw [l2] at hq; exact g2 q q' hq
-      · intro g stop hg hmw
-        obtain ⟨g1, g2⟩ := e2 g stop hg hmw
-        obtain ⟨l1, l2⟩ := liftx g _ g1
-        refine ⟨l1, ?_⟩
-        intro q q' hq
-        rw [hlx _ _ _ (by omega) r.2]; rw [l2] at hq; exact g2 q q' hq
-      · intro bm hc1 hc2 hc3 hc4
-        obtain ⟨g1, g2⟩ := e3 bm hc1 hc2 hc3 hc4
-        obtain ⟨l1, l2⟩ := liftx _ _ g1
-        refine ⟨l1, ?_⟩
-        intro q' hq
-        rw [hlx _ _ _ (by omega) r.2]; rw [l2] at hq; exact g2 q' hq
-      · intro bm hz0 hz1 hz2
-        obtain ⟨g1, g2⟩ := e5 bm hz0 hz1 hz2
-        obtain ⟨l1, l2⟩ := liftx { f with ip := f.ip + 1 } .run g1
-        refine ⟨l1, ?_⟩
-        intro q' hq
-        rw [hlx _ _ _ (by omega) r.2]; rw [l2] at hq; exact g2 q' hq
-    · -- the jump after the first alternative
-      obtain ⟨hip, hrc, hmd⟩ := hst
-      have hop : u8 e.code f.ip = OP_JUMP := by rw [hip]; exact o3
-      have hnany : ¬ (u8 e.code f.ip = OP_REPEAT_ANY_GREEDY ∨ u8 e.code f.ip = OP_REPEAT_ANY_UNGREEDY) := by
-        rw [hop]; simp [OP_JUMP, OP_REPEAT_ANY_GREEDY, OP_REPEAT_ANY_UNGREEDY]
-      refine ⟨?_, ?_, ?_, by rw [hop]; decide, fun bm _ _ hz => by rw [hop, zw_split_false e bm (.inr (.inr rfl))] at hz; simp at hz⟩
-      · intro g hg _
-        rw [estep_jump hg hop]
-        refine ⟨.inr ⟨by simp only; rw [hip, o4], hrc, rfl⟩, ?_⟩
-        intro q q' hq
-        simp only at hq
-        rw [hip, o4, hly _ _ _ (by omega), hyb] at hq
-        rw [hip, hlm]; exact hq
-      · intro g stop hg _
-        exact absurd hg (fun hh => no_astep hh hnany)
-      · intro bm hc
-        rw [hop] at hc
-        simp [isConsuming, OP_JUMP, OP_ANY, OP_REPEAT_ANY_GREEDY, OP_REPEAT_ANY_UNGREEDY, OP_LITERAL, OP_NOT_LITERAL, OP_MASKED_LITERAL,
-          OP_MASKED_NOT_LITERAL, OP_CLASS, OP_WORD_CHAR, OP_NON_WORD_CHAR, OP_SPACE, OP_NON_SPACE, OP_DIGIT, OP_NON_DIGIT] at hc
-    · have r := valid_range s2 hst
-      obtain ⟨e1, e2, e3, e4, e5⟩ := ih2 K f md hst
-      refine ⟨?_, ?_, ?_, e4, ?_⟩
-      · intro g hg hmw
-        obtain ⟨g1, g2⟩ := e1 g hg hmw
-        obtain ⟨l1, l2⟩ := lifty g .run g1
-        refine ⟨l1, ?_⟩
-        intro q q' hq
-        rw [hly _ _ _ (by omega)]; rw [l2] at hq; exact g2 q q' hq
-      · intro g stop hg hmw
-        obtain ⟨g1, g2⟩ := e2 g stop hg hmw
-        obtain ⟨l1, l2⟩ := lifty g _ g1
-        refine ⟨l1, ?_⟩
-        intro q q' hq
-        rw [hly _ _ _ (by omega)]; rw [l2] at hq; exact g2 q q' hq
-      · intro bm hc1 hc2 hc3 hc4
-        obtain ⟨g1, g2⟩ := e3 bm hc1 hc2 hc3 hc4
-        obtain ⟨l1, l2⟩ := lifty _ _ g1
-        refine ⟨l1, ?_⟩
-        intro q' hq
-        rw [hly _ _ _ (by omega)]; rw [l2] at hq; exact g2 q' hq
-      · intro bm hz0 hz1 hz2
-        obtain ⟨g1, g2⟩ := e5 bm hz0 hz1 hz2
-        obtain ⟨l1, l2⟩ := lifty { f with ip := f.ip + 1 } .run g1
-        refine ⟨l1, ?_⟩
-        intro q' hq
-        rw [hly _ _ _ (by omega)]; rw [l2] at hq; exact g2 q' hq
-
-/-! ### the reachability invariant for a whole program `emit r ++ [MATCH]` -/
-def Keps : Lang := fun q q' => q = q'
-
-theorem no_estep_match {code : Code} {f g : Fiber} (h : EStep code f g) (hop : u8 code f.ip = OP_MATCH) : False := by
-  cases h <;> rename_i h1 <;>
-    simp only [OP_MATCH, OP_SPLIT_A, OP_SPLIT_B, OP_JUMP, OP_REPEAT_START_GREEDY, OP_REPEAT_START_UNGREEDY, OP_REPEAT_END_GREEDY,
-      OP_REPEAT_END_UNGREEDY, OP_REPEAT_ANY_GREEDY, OP_REPEAT_ANY_UNGREEDY] at * <;> omega
-
-theorem match_not_any {op : Nat} (h : op = OP_MATCH) : ¬ (op = OP_REPEAT_ANY_GREEDY ∨ op = OP_REPEAT_ANY_UNGREEDY) := by
-  subst h; simp [OP_MATCH, OP_REPEAT_ANY_GREEDY, OP_REPEAT_ANY_UNGREEDY]
-
-/-- a valid state at an instruction that is not a REPEAT_ANY is in `run` mode -/
-theorem valid_run {code : Code} {r : Re} {a b : Nat} (hs : Seg code r a b) {ip : Nat} {rc : Int} {m : Mode}
-    (hv : Valid r a ip rc m) (hn : ¬ (u8 code ip = OP_REPEAT_ANY_GREEDY ∨ u8 code ip = OP_REPEAT_ANY_UNGREEDY)) : m = .run := by
-  induction hs generalizing ip with
-  | lit _ _ | notLit _ _ | masked _ _ _ | maskedNot _ _ _ | any _ | cls _ _ _ | wordCh _ | nonWordCh _ | space _ | nonSpace _ | digit _ | nonDigit _ | bol _ | eol _ | wordB _ | nonWordB _ => simp only [Valid] at hv; exact hv.2.2
-  | jump h1 _ _ _ => simp only [Valid] at hv; rw [hv.1] at hn; exact absurd h1 hn
-  | @star x a m' g _ _ h1 _ _ ih =>
-    simp only [Valid] at hv
-    rcases hv with hv | hv | hv
-    · exact hv.2.2
-    · exact ih hv hn
-    · exact hv.2.2
-  | @plus x a m' g h1 _ _ ih =>
-    simp only [Valid] at hv
-    rcases hv with hv | hv
-    · exact ih hv hn
-    · exact hv.2.2
-  | @opt x a m' g _ _ h1 ih =>
-    simp only [Valid] at hv
-    rcases hv with hv | hv
-    · exact hv.2.2
-    · exact ih hv hn
-  | @cat x y a m' b h1 h2 ih1 ih2 =>
-    have hm : m' = a + clen x := h1.len
-    simp only [Valid] at hv
-    rcases hv with hv | hv
-    · exact ih1 hv hn
-    · rw [← hm] at hv; exact ih2 hv hn
-  | @alt x y a m' b _ _ h1 _ _ h2 ih1 ih2 =>
-    have hm : m' = a + 4 + clen x := by have := h1.len; omega
-    simp only [Valid] at hv
-    rw [← hm] at hv
-    rcases hv with hv | hv | hv | hv
-    · exact hv.2.2
-    · exact ih1 hv hn
-    · exact hv.2.2
-    · exact ih2 hv hn
-
-theorem start_not_match (e : Env) (h : FwdByte e) {r : Re} {n : Nat} (hs : Seg e.code r 0 n) {f : Fiber} {m : Mode}
-    (hst : Valid r 0 f.ip f.rc m) : u8 e.code f.ip ≠ OP_MATCH := by
-  obtain ⟨_, _, _, e4, _⟩ := seg_step e h hs Keps f m hst
-  exact e4
-
-/-- one call of sync keeps the invariant -/
-theorem sstar_lang (e : Env) (h : FwdByte e) {r : Re} {n : Nat} (hs : Seg e.code r 0 n) (hmatch : u8 e.code n = OP_MATCH)
-    {f g : Fiber} {m' : Mode} (hss : SStar e.code f g m') : ∀ (m : Mode), m ≠ .wait → (Valid r 0 f.ip f.rc m ∨ AtEnd n f m) →
-    (Valid r 0 g.ip g.rc m' ∨ AtEnd n g m') ∧
-      ∀ q q', lang (specFlags e.fl) e.buf r 0 Keps g.ip g.rc m' q q' → lang (specFlags e.fl) e.buf r 0 Keps f.ip f.rc m q q' := by
-  induction hss with
-  | @refl f hn =>
-    intro m _ hv
-    have hm : m = .run := by
-      rcases hv with hv | hv
-      · exact valid_run hs hv hn
-      · exact hv.2.2
-    subst hm
-    exact ⟨hv, fun q q' hq => hq⟩
-  | @eps f g1 h1 m1 hstep _ ih =>
-    intro m hmw hv
-    rcases hv with hv | hv
-    · obtain ⟨e1, _, _, _, _⟩ := seg_step e h hs Keps f m hv
-      obtain ⟨g1v, g1l⟩ := e1 g1 hstep hmw
-      obtain ⟨r1, r2⟩ := ih .run (by simp) g1v
-      exact ⟨r1, fun q q' hq => g1l q q' (r2 q q' hq)⟩
-    · exact absurd hstep (fun hh => no_estep_match hh (by rw [hv.1]; exact hmatch))
-  | @cont f g1 h1 m1 hstep _ ih =>
-    intro m hmw hv
-    rcases hv with hv | hv
-    · obtain ⟨_, e2, _, _, _⟩ := seg_step e h hs Keps f m hv
-      obtain ⟨g1v, g1l⟩ := e2 g1 false hstep hmw
-      obtain ⟨r1, r2⟩ := ih .run (by simp) (by simpa [modeAfter] using g1v)
-      refine ⟨r1, fun q q' hq => g1l q q' ?_⟩
-      simpa [modeAfter] using r2 q q' hq
-    · exact absurd hstep (fun hh => no_astep hh (match_not_any (by rw [hv.1]; exact hmatch)))
-  | @spin f g1 hstep =>
-    intro m hmw hv
-    rcases hv with hv | hv
-    · obtain ⟨_, e2, _, _, _⟩ := seg_step e h hs Keps f m hv
-      obtain ⟨g1v, g1l⟩ := e2 g1 true hstep hmw
-      exact ⟨by simpa [modeAfter] using g1v, fun q q' hq => g1l q q' (by simpa [modeAfter] using hq)⟩
-    · exact absurd hstep (fun hh => no_astep hh (match_not_any (by rw [hv.1]; exact hmatch)))
-
-theorem maxBytes_le {e : Env} (h : FwdByte e) : e.start + e.maxBytes ≤ e.buf.size := by
-  have hs := h.startIn
-  unfold Env.maxBytes
-  simp only [h.notBack, Bool.false_eq_true, if_false, cs_one h, Nat.mod_one, Nat.sub_zero]
-  unfold Env.fwdSize
-  omega
-
-/-- invariant of the abstract machine on a whole program: whatever can still be accepted from a reachable state extends
-    to a match of the expression from the start position of the run (in scan mode: from SOME start position `s0`) -/
-theorem reach_lang (e : Env) (h : FwdByte e) {r : Re} {n : Nat} (hs : Seg e.code r 0 n) (hmatch : u8 e.code n = OP_MATCH)
-    (hentry : e.entry = 0) {f : Fiber} {m : Mode} {bm : Nat} (hr : Reach e f m bm) :
-    (Valid r 0 f.ip f.rc m ∨ AtEnd n f m) ∧ e.start + bm ≤ e.buf.size ∧
-      ∃ s0, e.start ≤ s0 ∧ s0 ≤ e.start + bm ∧ (e.fl.scan = false → s0 = e.start) ∧
-        ∀ q', lang (specFlags e.fl) e.buf r 0 Keps f.ip f.rc m (e.start + bm) q' →
-          lang (specFlags e.fl) e.buf r 0 Keps 0 (-1) .run s0 q' := by
-  induction hr with
-  | start =>
-    simp only [hentry]
-    exact ⟨.inl (valid_first hs), h.startIn, e.start, Nat.le_refl _, by omega, fun _ => rfl, fun q' hq => by simpa using hq⟩
-  | scanStart bm hsc hbm =>
-    simp only [hentry]
-    have := maxBytes_le h
-    exact ⟨.inl (valid_first hs), by omega, e.start + bm, by omega, Nat.le_refl _, fun hh => by rw [hsc] at hh; simp at hh,
-      fun q' hq => hq⟩
-  | @sync f g m m' bm _ hmw hss ih =>
-    obtain ⟨hpos, hb, s0, h1, h2, h3, hl⟩ := ih
-    obtain ⟨r1, r2⟩ := sstar_lang e h hs hmatch hss m hmw hpos
-    exact ⟨r1, hb, s0, h1, h2, h3, fun q' hq => hl q' (r2 _ q' hq)⟩
-  | @zw f bm _ hnc hnm hz ih =>
-    obtain ⟨hpos, hb, s0, h1, h2, h3, hl⟩ := ih
-    rcases hpos with hst | hend
-    · obtain ⟨_, _, _, _, e5⟩ := seg_step e h hs Keps f .run hst
-      obtain ⟨g1, g2⟩ := e5 bm hb hnc hz
-      exact ⟨g1, hb, s0, h1, h2, h3, fun q' hq => hl q' (g2 q' hq)⟩
-    · exact absurd (by rw [hend.1]; exact hmatch) hnm
-  | @cons f m bm _ hc hok hany hnp ih =>
-    obtain ⟨hpos, hb, s0, h1, h2, h3, hl⟩ := ih
-    have hb' : e.start + (bm + e.cs) ≤ e.buf.size := by
-      have := consume_in_buf h hok
-      rw [cs_one h]; omega
-    rcases hpos with hst | hend
-    · obtain ⟨_, _, e3, _, _⟩ := seg_step e h hs Keps f m hst
-      obtain ⟨g1, g2⟩ := e3 bm hc hok hany hnp
-      refine ⟨g1, hb', s0, h1, by omega, h3, ?_⟩
-      intro q' hq
-      apply hl q'
-      apply g2 q'
-      rw [cs_one h] at hq
-      rwa [← Nat.add_assoc] at hq
-    · exfalso
-      rw [hend.1, hmatch] at hc
-      simp [isConsuming, OP_MATCH, OP_ANY, OP_REPEAT_ANY_GREEDY, OP_REPEAT_ANY_UNGREEDY, OP_LITERAL, OP_NOT_LITERAL, OP_MASKED_LITERAL,
-        OP_MASKED_NOT_LITERAL, OP_CLASS, OP_WORD_CHAR, OP_NON_WORD_CHAR, OP_SPACE, OP_NON_SPACE, OP_DIGIT, OP_NON_DIGIT] at hc
-
-/-- a reachable fiber at RE_OPCODE_MATCH after `L` bytes: the expression matches `[s0, start+L)` for a start position `s0`
-    of the run (`s0 = start` unless the run is in scan mode) -/
-theorem match_sound (e : Env) (h : FwdByte e) {r : Re} {n : Nat} (hs : Seg e.code r 0 n) (hmatch : u8 e.code n = OP_MATCH)
-    (hentry : e.entry = 0) {f : Fiber} {m : Mode} {L : Nat} (hr : Reach e f m L) (hm : u8 e.code f.ip = OP_MATCH) :
-    ∃ s0, e.start ≤ s0 ∧ s0 ≤ e.start + L ∧ e.start + L ≤ e.buf.size ∧ (e.fl.scan = false → s0 = e.start) ∧
-      Re.Matches (specFlags e.fl) e.buf r s0 (e.start + L) := by
-  obtain ⟨hpos, hbd, s0, h1, h2, h3, hl⟩ := reach_lang e h hs hmatch hentry hr
-  rcases hpos with hst | hend
-  · exact absurd hm (start_not_match e h hs hst)
-  · have hk : lang (specFlags e.fl) e.buf r 0 Keps f.ip f.rc m (e.start + L) (e.start + L) := by
-      rw [hend.1, lang_end _ _ hs]; rfl
-    obtain ⟨t, ht, hkt⟩ := lang_entry _ _ hs Keps _ _ (hl _ hk)
-    simp only [Keps] at hkt
-    rw [hkt] at ht
-    exact ⟨s0, h1, h2, hbd, h3, ht⟩
-
-/-! ### the emitted bytes decode to a segment -/
-/-- `code` contains the byte list `bs` at address `a` -/
-def Sub (code : Code) (a : Nat) (bs : List UInt8) : Prop := ∀ i, i < bs.length → u8 code (a + i) = (bs[i]?.getD 0).toNat
-
-theorem sub_append {code : Code} {a : Nat} {x y : List UInt8} (h : Sub code a (x ++ y)) : Sub code a x ∧ Sub code (a + x.length) y := by
-  constructor
-  · intro i hi
-    have := h i (by simp; omega)
-    rwa [List.getElem?_append_left hi] at this
-  · intro i hi
-    have := h (x.length + i) (by simp; omega)
-    rw [List.getElem?_append_right (by omega)] at this
-    have e1 : x.length + i - x.length = i := by omega
-    rw [e1, ← Nat.add_assoc] at this
-    exact this
-
-theorem sub_whole (bs : List UInt8) : Sub bs.toArray 0 bs := by
-  intro i _
-  simp [u8]
-
-theorem clen_pos {r : Re} (hf : Frag r) : 0 < clen r := by
-  induction hf <;> simp only [clen] <;> omega
-
-theorem emit_opt (x : Re) (g : Bool) (s : Nat) : (emit false (.range x 0 1 g) s).1 =
-    [if g then 0xC0 else 0xC1, UInt8.ofNat s] ++ leI16 (4 + (emit false x (s + 1)).1.length) ++ (emit false x (s + 1)).1 := by
-  simp [emit, emit.emitProlog, emit.emitRepeat, emit.emitSplit, emit.emitEpilog]
-
-theorem emit_len {r : Re} (hf : Frag r) : ∀ s, (emit false r s).1.length = clen r := by
-  induction hf with
-  | lit _ | masked _ _ | notLit _ | maskedNot _ _ | any | wordCh | nonWordCh | space | nonSpace | digit | nonDigit | bol | eol | wordB | nonWordB => intro s; simp [emit, clen]
-  | jump _ _ _ _ _ => intro s; simp [emit, clen, le16]
-  | cls _ _ => intro s; simp [emit, clen, bitmapBytes]
-  | star g _ ih =>
-    intro s
-    simp only [emit, clen, List.length_append, List.length_cons, List.length_nil, leI16, le16]
-    rw [ih]
-  | @plus x g hx ih =>
-    intro s
-    have hne : (emit false x s).1.isEmpty = false := by
-      have h1 := ih s
-      have h2 := clen_pos hx
-      cases hc : (emit false x s).1 with
-      | nil => rw [hc] at h1; simp at h1; omega
-      | cons _ _ => rfl
-    simp only [emit, hne, Bool.false_eq_true, if_false, clen, List.length_append, List.length_cons, List.length_nil, leI16, le16]
-    rw [ih]
-  | opt g _ ih =>
-    intro s
-    rw [emit_opt]
-    simp only [clen, List.length_append, List.length_cons, List.length_nil, leI16, le16]
-    rw [ih]
-  | cat _ _ ih1 ih2 =>
-    intro s
-    simp only [emit, Bool.false_eq_true, if_false, clen, List.length_append]
-    rw [ih1, ih2]
-  | alt _ _ ih1 ih2 =>
-    intro s
-    simp only [emit, clen, List.length_append, List.length_cons, List.length_nil, leI16, le16]
-    rw [ih1, ih2]
-
-theorem leI16_length (i : Int) : (leI16 i).length = 2 := by simp [leI16, le16]
-
-theorem i16_of_bytes {code : Code} {a n : Nat} (hn : n < 32768) (h0 : u8 code a = n % 256) (h1 : u8 code (a + 1) = n / 256 % 256) :
-    i16 code a = (n : Int) := by
-  unfold i16 u16
-  rw [h0, h1]
-  have : n % 256 + 256 * (n / 256 % 256) = n := by omega
-  simp only [this]
-  have : ¬ n ≥ 32768 := by omega
-  simp [this]
-
-theorem sub_leI16 {code : Code} {a n : Nat} (hn : n < 32768) (h : Sub code a (leI16 (n : Int))) : i16 code a = (n : Int) := by
-  have e : leI16 (n : Int) = [UInt8.ofNat (n % 256), UInt8.ofNat (n / 256 % 256)] := by
-    unfold leI16 le16
-    have : ((n : Int) % 65536).toNat = n := by omega
-    rw [this]
-  rw [e] at h
-  have h0 := h 0 (by simp)
-  have h1 := h 1 (by simp)
-  simp only [Nat.add_zero, List.getElem?_cons_zero, Option.getD_some, List.getElem?_cons_succ] at h0 h1
-  apply i16_of_bytes hn
-  · rw [h0]; simp
-  · rw [h1]; simp
-
-theorem sub_leI16_neg {code : Code} {a n : Nat} (hn : 0 < n) (hn2 : n ≤ 32768) (h : Sub code a (leI16 (-(n : Int)))) :
-    i16 code a = -(n : Int) := by
-  have e : leI16 (-(n : Int)) = [UInt8.ofNat ((65536 - n) % 256), UInt8.ofNat ((65536 - n) / 256 % 256)] := by
-    unfold leI16 le16
-    have : ((-(n : Int)) % 65536).toNat = 65536 - n := by omega
-    rw [this]
-  rw [e] at h
-  have h0 := h 0 (by simp)
-  have h1 := h 1 (by simp)
-  simp only [Nat.add_zero, List.getElem?_cons_zero, Option.getD_some, List.getElem?_cons_succ] at h0 h1
-  have t0 : (UInt8.ofNat ((65536 - n) % 256)).toNat = (65536 - n) % 256 := by simp
-  have t1 : (UInt8.ofNat ((65536 - n) / 256 % 256)).toNat = (65536 - n) / 256 % 256 := by simp
-  unfold i16 u16
-  rw [h0, h1, t0, t1]
-  have e3 : (65536 - n) % 256 + 256 * ((65536 - n) / 256 % 256) = 65536 - n := by omega
-  rw [e3]
-  have : 65536 - n ≥ 32768 := by omega
-  simp only [this, if_true]
-  omega
-
-theorem seg_of_emit {r : Re} (hf : Frag r) : ∀ (s : Nat) (code : Code) (a : Nat), clen r < 32000 →
-    Sub code a (emit false r s).1 → Seg code r a (a + clen r) := by
-  induction hf with
-  | lit b =>
-    intro s code a _ h
-    simp only [emit] at h
-    have h0 := h 0 (by simp); have h1 := h 1 (by simp)
-    simp at h0 h1
-    exact .lit (by rw [h0]; rfl) h1
-  | notLit b =>
-    intro s code a _ h
-    simp only [emit] at h
-    have h0 := h 0 (by simp); have h1 := h 1 (by simp)
-    simp at h0 h1
-    exact .notLit (by rw [h0]; rfl) h1
-  | masked v m =>
-    intro s code a _ h
-    simp only [emit] at h
-    have h0 := h 0 (by simp); have h1 := h 1 (by simp); have h2 := h 2 (by simp)
-    simp at h0 h1 h2
-    exact .masked (by rw [h0]; rfl) h1 h2
-  | maskedNot v m =>
-    intro s code a _ h
-    simp only [emit] at h
-    have h0 := h 0 (by simp); have h1 := h 1 (by simp); have h2 := h 2 (by simp)
-    simp at h0 h1 h2
-    exact .maskedNot (by rw [h0]; rfl) h1 h2
-  | any =>
-    intro s code a _ h
-    simp only [emit] at h
-    have h0 := h 0 (by simp)
-    simp at h0
-    exact .any (by rw [h0]; rfl)
-  | cls cb neg =>
-    intro s code a _ h
-    simp only [emit] at h
-    have h0 := h 0 (by simp [bitmapBytes])
-    have h1 := h 1 (by simp [bitmapBytes])
-    simp at h0 h1
-    refine .cls (by rw [h0]; rfl) (by rw [h1]; cases neg <;> rfl) ?_
-    intro c
-    unfold classBit inBitmap
-    have hi : c.toNat / 8 < 32 := by have := c.toNat_lt; omega
-    have hb := h (2 + c.toNat / 8) (by simp [bitmapBytes]; omega)
-    have e1 : a + (2 + c.toNat / 8) = a + 2 + c.toNat / 8 := by omega
-    rw [e1] at hb
-    rw [hb]
-    have e2 : (0xA5 :: (if neg = true then (1 : UInt8) else 0) :: bitmapBytes cb)[2 + c.toNat / 8]? = (bitmapBytes cb)[c.toNat / 8]? := by
-      have : 2 + c.toNat / 8 = (c.toNat / 8 + 1) + 1 := by omega
-      rw [this]; rfl
-    rw [e2]
-    unfold bitmapBytes
-    rw [List.getElem?_map, List.getElem?_range hi]
-    simp only [Option.map_some, Option.getD_some]
-    have e3 : (UInt8.ofNat (cb / 2 ^ (8 * (c.toNat / 8)) % 256)).toNat = cb / 2 ^ (8 * (c.toNat / 8)) % 256 := by simp
-    rw [e3]
-    have e4 : (256 : Nat) = 2 ^ 8 := by decide
-    rw [e4, Nat.testBit_mod_two_pow, Nat.testBit_div_two_pow]
-    have e5 : c.toNat % 8 < 8 := Nat.mod_lt _ (by omega)
-    have e6 : c.toNat % 8 + 8 * (c.toNat / 8) = c.toNat := by omega
-    simp [e5, e6]
-  | wordCh =>
-    intro s code a _ h
-    simp only [emit] at h
-    have h0 := h 0 (by simp)
-    simp at h0
-    exact .wordCh (by rw [h0]; rfl)
-  | nonWordCh =>
-    intro s code a _ h
-    simp only [emit] at h
-    have h0 := h 0 (by simp)
-    simp at h0
-    exact .nonWordCh (by rw [h0]; rfl)
-  | space =>
-    intro s code a _ h
-    simp only [emit] at h
-    have h0 := h 0 (by simp)
-    simp at h0
-    exact .space (by rw [h0]; rfl)
-  | nonSpace =>
-    intro s code a _ h
-    simp only [emit] at h
-    have h0 := h 0 (by simp)
-    simp at h0
-    exact .nonSpace (by rw [h0]; rfl)
-  | digit =>
-    intro s code a _ h
-    simp only [emit] at h
-    have h0 := h 0 (by simp)
-    simp at h0
-    exact .digit (by rw [h0]; rfl)
-  | nonDigit =>
-    intro s code a _ h
-    simp only [emit] at h
-    have h0 := h 0 (by simp)
-    simp at h0
-    exact .nonDigit (by rw [h0]; rfl)
-  | bol =>
-    intro s code a _ h
-    simp only [emit] at h
-    have h0 := h 0 (by simp)
-    simp at h0
-    exact .bol (by rw [h0]; rfl)
-  | eol =>
-    intro s code a _ h
-    simp only [emit] at h
-    have h0 := h 0 (by simp)
-    simp at h0
-    exact .eol (by rw [h0]; rfl)
-  | wordB =>
-    intro s code a _ h
-    simp only [emit] at h
-    have h0 := h 0 (by simp)
-    simp at h0
-    exact .wordB (by rw [h0]; rfl)
-  | nonWordB =>
-    intro s code a _ h
-    simp only [emit] at h
-    have h0 := h 0 (by simp)
-    simp at h0
-    exact .nonWordB (by rw [h0]; rfl)
-  | jump lo hi g hlh hhi =>
-    intro s code a _ h
-    simp only [emit, le16] at h
-    have hlo : lo % 65536 = lo := Nat.mod_eq_of_lt (by omega)
-    have hhi' : hi % 65536 = hi := Nat.mod_eq_of_lt hhi
-    rw [hlo, hhi'] at h
-    have h0 := h 0 (by simp); have h1 := h 1 (by simp); have h2 := h 2 (by simp); have h3 := h 3 (by simp); have h4 := h 4 (by simp)
-    simp at h0 h1 h2 h3 h4
-    have e2 : a + 1 + 1 = a + 2 := by omega
-    have e4 : a + 3 + 1 = a + 4 := by omega
-    refine .jump ?_ ?_ ?_ hlh
-    · rw [h0]; cases g <;> simp [OP_REPEAT_ANY_GREEDY, OP_REPEAT_ANY_UNGREEDY]
-    · unfold u16; rw [e2, h1, h2]; omega
-    · unfold u16; rw [e4, h3, h4]; omega
-  | @star x g hx ih =>
-    intro s code a hsz h
-    simp only [clen] at hsz ⊢
-    simp only [emit] at h
-    -- [op, id] ++ off16 ++ ca ++ [C2] ++ off16'
-    obtain ⟨h1234, hoff2⟩ := sub_append h
-    obtain ⟨h123, hjmp⟩ := sub_append h1234
-    obtain ⟨h12, hca⟩ := sub_append h123
-    obtain ⟨hhead, hoff1⟩ := sub_append h12
-    simp only [List.length_append, List.length_cons, List.length_nil, leI16_length, emit_len hx] at hoff2 hjmp hca hoff1
-    have hop : u8 code a = OP_SPLIT_A ∨ u8 code a = OP_SPLIT_B := by
-      have := hhead 0 (by simp); simp at this
-      cases g
-      · right; rw [this]; rfl
-      · left; rw [this]; rfl
-    have hj : u8 code (a + 4 + clen x) = OP_JUMP := by
-      have := hjmp 0 (by simp)
-      simp at this
-      have e1 : a + (0 + 1 + 1 + (0 + 1 + 1) + clen x) = a + 4 + clen x := by omega
-      rw [e1] at this; rw [this]; rfl
-    have ho1 : i16 code (a + 2) = ((4 + clen x + 3 : Nat) : Int) := by
-      apply sub_leI16 (by omega)
-      have e1 : a + (0 + 1 + 1) = a + 2 := by omega
-      rw [e1] at hoff1
-      have e2 : ((4 + clen x + 3 : Nat) : Int) = 4 + (clen x : Int) + 3 := by omega
-      rw [e2]; exact hoff1
-    have ho2 : i16 code (a + 4 + clen x + 1) = -((4 + clen x : Nat) : Int) := by
-      apply sub_leI16_neg (by omega) (by omega)
-      have e1 : a + (0 + 1 + 1 + (0 + 1 + 1) + clen x + (0 + 1)) = a + 4 + clen x + 1 := by omega
-      rw [e1] at hoff2
-      exact hoff2
-    have sx : Seg code x (a + 4) (a + 4 + clen x) := by
-      apply ih (s + 1) code (a + 4) (by omega)
-      have e1 : a + (0 + 1 + 1 + (0 + 1 + 1)) = a + 4 := by omega
-      rw [e1] at hca; exact hca
-    have := Seg.star (code := code) (x := x) (a := a) (m := a + 4 + clen x) (g := g) hop
-      (by rw [ho1]; unfold addOff; omega) sx hj (by rw [ho2]; unfold addOff; omega)
-    have e3 : a + (4 + clen x + 3) = a + 4 + clen x + 3 := by omega
-    rw [e3]; exact this
-  | @plus x g hx ih =>
-    intro s code a hsz h
-    simp only [clen] at hsz ⊢
-    have hne : (emit false x s).1.isEmpty = false := by
-      have h1 := emit_len hx s
-      have h2 := clen_pos hx
-      cases hc : (emit false x s).1 with
-      | nil => rw [hc] at h1; simp at h1; omega
-      | cons _ _ => rfl
-    simp only [emit, hne, Bool.false_eq_true, if_false] at h
-    -- ca ++ [op, id] ++ off16
-    obtain ⟨h12, hoff⟩ := sub_append h
-    obtain ⟨hca, hhead⟩ := sub_append h12
-    simp only [List.length_append, List.length_cons, List.length_nil, emit_len hx] at hoff hhead
-    have sx : Seg code x a (a + clen x) := ih s code a (by omega) hca
-    have hpos := sx.pos
-    have hop : u8 code (a + clen x) = OP_SPLIT_A ∨ u8 code (a + clen x) = OP_SPLIT_B := by
-      have := hhead 0 (by simp); simp at this
-      cases g
-      · left; rw [this]; rfl
-      · right; rw [this]; rfl
-    have ho : i16 code (a + clen x + 2) = -((clen x : Nat) : Int) := by
-      apply sub_leI16_neg (by omega) (by omega)
-      have e1 : a + (clen x + (0 + 1 + 1)) = a + clen x + 2 := by omega
-      rw [e1] at hoff
-      exact hoff
-    have := Seg.plus (code := code) (x := x) (a := a) (m := a + clen x) (g := g) sx hop (by rw [ho]; unfold addOff; omega)
-    have e3 : a + (clen x + 4) = a + clen x + 4 := by omega
-    rw [e3]; exact this
-  | @opt x g hx ih =>
-    intro s code a hsz h
-    simp only [clen] at hsz ⊢
-    rw [emit_opt] at h
-    -- [op, id] ++ off16 ++ ca
-    obtain ⟨h12, hca⟩ := sub_append h
-    obtain ⟨hhead, hoff1⟩ := sub_append h12
-    simp only [List.length_append, List.length_cons, List.length_nil, leI16_length, emit_len hx] at hca hoff1
-    have hop : u8 code a = OP_SPLIT_A ∨ u8 code a = OP_SPLIT_B := by
-      have := hhead 0 (by simp); simp at this
-      cases g
-      · right; rw [this]; rfl
-      · left; rw [this]; rfl
-    have ho1 : i16 code (a + 2) = ((4 + clen x : Nat) : Int) := by
-      apply sub_leI16 (by omega)
-      have e1 : a + (0 + 1 + 1) = a + 2 := by omega
-      rw [e1] at hoff1
-      have e2 : ((4 + clen x : Nat) : Int) = 4 + (clen x : Int) := by omega
-      rw [e2]; exact hoff1
-    have sx : Seg code x (a + 4) (a + 4 + clen x) := by
-      apply ih (s + 1) code (a + 4) (by omega)
-      have e1 : a + (0 + 1 + 1 + (0 + 1 + 1)) = a + 4 := by omega
-      rw [e1] at hca; exact hca
-    have := Seg.opt (code := code) (x := x) (a := a) (m := a + 4 + clen x) (g := g) hop
-      (by rw [ho1]; unfold addOff; omega) sx
-    have e3 : a + (4 + clen x) = a + 4 + clen x := by omega
-    rw [e3]; exact this
-  | @cat x y hx hy ih1 ih2 =>
-    intro s code a hsz h
-    simp only [clen] at hsz ⊢
-    simp only [emit, Bool.false_eq_true, if_false] at h
-    obtain ⟨h1, h2⟩ := sub_append h
-    rw [emit_len hx] at h2
-    have := Seg.cat (ih1 s code a (by omega) h1) (ih2 _ code (a + clen x) (by omega) h2)
-    rwa [Nat.add_assoc] at this
-  | @alt x y hx hy ih1 ih2 =>
-    intro s code a hsz h
-    simp only [clen] at hsz ⊢
-    simp only [emit] at h
-    -- [C0, id] ++ off16 ++ ca ++ [C2] ++ off16' ++ cb
-    obtain ⟨h12, hcb⟩ := sub_append h
-    obtain ⟨h123, hoff2⟩ := sub_append h12
-    obtain ⟨h1234, hjmp⟩ := sub_append h123
-    obtain ⟨h12', hca⟩ := sub_append h1234
-    obtain ⟨hhead, hoff1⟩ := sub_append h12'
-    simp only [List.length_append, List.length_cons, List.length_nil, leI16_length, emit_len hx, emit_len hy] at hcb hoff2 hjmp hca hoff1
-    have hop : u8 code a = OP_SPLIT_A := by
-      have := hhead 0 (by simp); simp at this; rw [this]; rfl
-    have hj : u8 code (a + 4 + clen x) = OP_JUMP := by
-      have := hjmp 0 (by simp)
-      simp at this
-      have e1 : a + (0 + 1 + 1 + (0 + 1 + 1) + clen x) = a + 4 + clen x := by omega
-      rw [e1] at this; rw [this]; rfl
-    have ho1 : i16 code (a + 2) = ((4 + clen x + 3 : Nat) : Int) := by
-      apply sub_leI16 (by omega)
-      have e1 : a + (0 + 1 + 1) = a + 2 := by omega
-      rw [e1] at hoff1
-      have e2 : ((4 + clen x + 3 : Nat) : Int) = 4 + (clen x : Int) + 3 := by omega
-      rw [e2]; exact hoff1
-    have ho2 : i16 code (a + 4 + clen x + 1) = ((3 + clen y : Nat) : Int) := by
-      apply sub_leI16 (by omega)
-      have e1 : a + (0 + 1 + 1 + (0 + 1 + 1) + clen x + (0 + 1)) = a + 4 + clen x + 1 := by omega
-      rw [e1] at hoff2
-      have e2 : ((3 + clen y : Nat) : Int) = 3 + (clen y : Int) := by omega
-      rw [e2]; exact hoff2
-    have sx : Seg code x (a + 4) (a + 4 + clen x) := by
-      apply ih1 (s + 1) code (a + 4) (by omega)
-      have e1 : a + (0 + 1 + 1 + (0 + 1 + 1)) = a + 4 := by omega
-      rw [e1] at hca; exact hca
-    have sy : Seg code y (a + 4 + clen x + 3) (a + 4 + clen x + 3 + clen y) := by
-      apply ih2 _ code (a + 4 + clen x + 3) (by omega)
-      have e1 : a + (0 + 1 + 1 + (0 + 1 + 1) + clen x + (0 + 1) + (0 + 1 + 1)) = a + 4 + clen x + 3 := by omega
-      rw [e1] at hcb; exact hcb
-    have := Seg.alt (code := code) (x := x) (y := y) (a := a) (m := a + 4 + clen x) (b := a + 4 + clen x + 3 + clen y) hop
-      (by rw [ho1]; unfold addOff; omega) sx hj (by rw [ho2]; unfold addOff; omega) sy
-    have e3 : a + (4 + clen x + 3 + clen y) = a + 4 + clen x + 3 + clen y := by omega
-    rw [e3]; exact this
-
 
 /-- the environment of a run of the emitted forward code of `r` -/
 def envOf (r : Re) (buf : Bytes) (start : Nat) (fl : VmFlags) (fuel : Nat) : Env :=
   { code := (emitCode false r).toArray, entry := 0, buf := buf, start := start, fl := fl, syncFuel := fuel }
 
-theorem envOf_sound (r : Re) (hf : Frag r) (hsz : clen r < 32000) (buf : Bytes) (start : Nat) (hst : start ≤ buf.size)
+theorem envOf_sound (r : Re) (hwf : WF r) (hsz : (emit false r 0).1.length < 32000) (buf : Bytes) (start : Nat) (hst : start ≤ buf.size)
     (fl : VmFlags) (hw : fl.wide = false) (hb : fl.backwards = false) (fuel : Nat) (m : Int) (c : List Nat)
     (h : exec (envOf r buf start fl fuel) = .done m c) :
     (∀ L, L ∈ c → ∃ s0, start ≤ s0 ∧ s0 ≤ start + L ∧ start + L ≤ buf.size ∧ (fl.scan = false → s0 = start) ∧
@@ -1983,15 +24,16 @@ theorem envOf_sound (r : Re) (hf : Frag r) (hsz : clen r < 32000) (buf : Bytes) 
       Re.Matches (specFlags fl) buf r s0 (start + m.toNat)) := by
   obtain ⟨e, he⟩ : ∃ e : Env, e = envOf r buf start fl fuel := ⟨_, rfl⟩
   rw [← he] at h
+  rw [emit_len hwf] at hsz
   have hfb : FwdByte e := by subst he; exact ⟨hw, hb, hst⟩
   have hsub : Sub e.code 0 ((emit false r 0).1 ++ [0xAD]) := by subst he; exact sub_whole _
   obtain ⟨h1, h2⟩ := sub_append hsub
-  have hseg : Seg e.code r 0 (clen r) := by
-    have := seg_of_emit hf 0 e.code 0 hsz h1
+  have hseg : Seg e.code (lower r) 0 (clen (lower r)) := by
+    have := seg_of_emit hwf 0 e.code 0 hsz h1
     simpa using this
-  have hmatch : u8 e.code (clen r) = OP_MATCH := by
+  have hmatch : u8 e.code (clen (lower r)) = OP_MATCH := by
     have := h2 0 (by simp)
-    rw [emit_len hf] at this
+    rw [emit_len hwf] at this
     simp at this
     rw [this]; rfl
   have hentry : e.entry = 0 := by subst he; rfl
@@ -2002,22 +44,28 @@ theorem envOf_sound (r : Re) (hf : Frag r) (hsz : clen r < 32000) (buf : Bytes) 
   constructor
   · intro L hL
     obtain ⟨f, md, hr, hm⟩ := g1 L hL
-    have := match_sound e hfb hseg hmatch hentry hr hm
-    rwa [hbuf, hstart, hfl] at this
+    obtain ⟨s0, k1, k2, k4, k5⟩ := match_sound e (fwdByteDir e hfb) hseg hmatch hentry hr hm
+    have k6 := (lower_sem hwf _ _).1 (irm_fwd e k5)
+    have k2' : e.start + _ ≤ e.buf.size := k2
+    rw [hbuf, hstart, hfl] at *
+    exact ⟨start + s0, by omega, by omega, k2', fun hh => by rw [k4 hh]; rfl, k6⟩
   · intro hm0
     obtain ⟨f, md, hr, hm⟩ := g2 hm0
-    have := match_sound e hfb hseg hmatch hentry hr hm
-    rwa [hbuf, hstart, hfl] at this
+    obtain ⟨s0, k1, k2, k4, k5⟩ := match_sound e (fwdByteDir e hfb) hseg hmatch hentry hr hm
+    have k6 := (lower_sem hwf _ _).1 (irm_fwd e k5)
+    have k2' : e.start + _ ≤ e.buf.size := k2
+    rw [hbuf, hstart, hfl] at *
+    exact ⟨start + s0, by omega, by omega, k2', fun hh => by rw [k4 hh]; rfl, k6⟩
 
-/-- soundness of the VM on the code emitted for an expression of the fragment (byte mode, forwards, any nocase / dot-all
-    flags, exhaustive or not, string verification = not scan mode): every reported length is a match length of the
-    expression at the start position -/
-theorem vm_sound_frag (r : Re) (hf : Frag r) (hsz : clen r < 32000) (buf : Bytes) (start : Nat) (hst : start ≤ buf.size)
+/-- soundness of the VM on the code emitted for a well-formed expression (byte mode, forwards, any nocase / dot-all flags,
+    exhaustive or not, string verification = not scan mode): every reported length is a match length of the expression at
+    the start position -/
+theorem vm_sound_wf (r : Re) (hwf : WF r) (hsz : (emit false r 0).1.length < 32000) (buf : Bytes) (start : Nat) (hst : start ≤ buf.size)
     (fl : VmFlags) (hw : fl.wide = false) (hb : fl.backwards = false) (hsc : fl.scan = false) (fuel : Nat) (m : Int) (c : List Nat)
     (h : exec { code := (emitCode false r).toArray, entry := 0, buf := buf, start := start, fl := fl, syncFuel := fuel } = .done m c) :
     (∀ L, L ∈ c → Re.Matches (specFlags fl) buf r start (start + L)) ∧
     (0 ≤ m → Re.Matches (specFlags fl) buf r start (start + m.toNat)) := by
-  obtain ⟨g1, g2⟩ := envOf_sound r hf hsz buf start hst fl hw hb fuel m c h
+  obtain ⟨g1, g2⟩ := envOf_sound r hwf hsz buf start hst fl hw hb fuel m c h
   constructor
   · intro L hL
     obtain ⟨s0, _, _, _, h3, hm⟩ := g1 L hL
@@ -2028,12 +76,126 @@ theorem vm_sound_frag (r : Re) (hf : Frag r) (hsz : clen r < 32000) (buf : Bytes
 
 /-- soundness of the `matches` operator's engine run (RE_FLAGS_SCAN over the operand string, start 0): a result >= 0
     means that the expression matches somewhere in the operand -/
-theorem matches_sound_frag (r : Re) (hf : Frag r) (hsz : clen r < 32000) (str : Bytes)
+theorem matches_sound_wf (r : Re) (hwf : WF r) (hsz : (emit false r 0).1.length < 32000) (str : Bytes)
     (fl : VmFlags) (hw : fl.wide = false) (hb : fl.backwards = false) (fuel : Nat) (m : Int) (c : List Nat)
     (h : exec { code := (emitCode false r).toArray, entry := 0, buf := str, start := 0, fl := fl, syncFuel := fuel } = .done m c)
     (hm : 0 ≤ m) : ∃ o q, o ≤ q ∧ q ≤ str.size ∧ Re.Matches (specFlags fl) str r o q := by
-  obtain ⟨_, g2⟩ := envOf_sound r hf hsz str 0 (Nat.zero_le _) fl hw hb fuel m c h
+  obtain ⟨_, g2⟩ := envOf_sound r hwf hsz str 0 (Nat.zero_le _) fl hw hb fuel m c h
   obtain ⟨s0, _, h2, h3, _, hmm⟩ := g2 hm
   exact ⟨s0, 0 + m.toNat, h2, h3, hmm⟩
+
+/-- the abstract-machine half, for any way of reading the input: a length reported by the VM on `code(r') ++ [MATCH]` is
+    the end of a shape match in matched bytes -/
+theorem exec_irm (e : Env) (D : Dir e) (r' : Re) (hwf : WF r') (hsz : (emit false r' 0).1.length < 32000)
+    (hcode : e.code = ((emit false r' 0).1 ++ [0xAD]).toArray) (hentry : e.entry = 0) (m : Int) (c : List Nat)
+    (h : exec e = .done m c) :
+    (∀ L, L ∈ c → ∃ s0, s0 ≤ L ∧ D.ok L ∧ (e.fl.scan = false → s0 = 0) ∧ IrM D.L (lower r') s0 L) ∧
+    (0 ≤ m → ∃ s0, s0 ≤ m.toNat ∧ D.ok m.toNat ∧ (e.fl.scan = false → s0 = 0) ∧ IrM D.L (lower r') s0 m.toNat) := by
+  rw [emit_len hwf] at hsz
+  have hsub : Sub e.code 0 ((emit false r' 0).1 ++ [0xAD]) := by rw [hcode]; exact sub_whole _
+  obtain ⟨h1, h2⟩ := sub_append hsub
+  have hseg : Seg e.code (lower r') 0 (clen (lower r')) := by
+    have := seg_of_emit hwf 0 e.code 0 hsz h1
+    simpa using this
+  have hmatch : u8 e.code (clen (lower r')) = OP_MATCH := by
+    have := h2 0 (by simp)
+    rw [emit_len hwf] at this
+    simp at this
+    rw [this]; rfl
+  obtain ⟨g1, g2⟩ := exec_sound e m c h
+  constructor
+  · intro L hL
+    obtain ⟨f, md, hr, hm⟩ := g1 L hL
+    exact match_sound e D hseg hmatch hentry hr hm
+  · intro hm0
+    obtain ⟨f, md, hr, hm⟩ := g2 hm0
+    exact match_sound e D hseg hmatch hentry hr hm
+
+/-- FORWARD code, one- or two-byte (wide) characters: every reported length ends a match of the expression that begins at
+    the start position (in scan mode: at a later position) -/
+theorem vm_sound_fwd (r : Re) (hwf : WF r) (hsz : (emit false r 0).1.length < 32000) (buf : Bytes) (start : Nat) (hst : start ≤ buf.size)
+    (fl : VmFlags) (hb : fl.backwards = false) (hsw : fl.scan = true → fl.wide = false) (fuel : Nat) (m : Int) (c : List Nat)
+    (h : exec { code := (emitCode false r).toArray, entry := 0, buf := buf, start := start, fl := fl, syncFuel := fuel } = .done m c) :
+    (∀ L, L ∈ c → ∃ s0, s0 ≤ L ∧ start + L ≤ buf.size ∧ (fl.scan = false → s0 = 0) ∧
+      Re.Matches (specFlagsG fl) buf r (start + s0) (start + L)) ∧
+    (0 ≤ m → ∃ s0, s0 ≤ m.toNat ∧ start + m.toNat ≤ buf.size ∧ (fl.scan = false → s0 = 0) ∧
+      Re.Matches (specFlagsG fl) buf r (start + s0) (start + m.toNat)) := by
+  obtain ⟨e, he⟩ : ∃ e : Env, e = { code := (emitCode false r).toArray, entry := 0, buf := buf, start := start, fl := fl, syncFuel := fuel } := ⟨_, rfl⟩
+  rw [← he] at h
+  have hrun : RunOK e := by subst he; exact ⟨hst, hsw⟩
+  have hb' : e.fl.backwards = false := by subst he; exact hb
+  obtain ⟨g1, g2⟩ := exec_irm e (fwdDir e hb' hrun) r hwf hsz (by subst he; rfl) (by subst he; rfl) m c h
+  have conv : ∀ L s0, (fwdDir e hb' hrun).ok L → IrM (fwdDir e hb' hrun).L (lower r) s0 L →
+      start + L ≤ buf.size ∧ Re.Matches (specFlagsG fl) buf r (start + s0) (start + L) := by
+    intro L s0 hok hm
+    have k := (lower_sem hwf _ _).1 (irm_fwdG (specFlagsG e.fl) e.buf e.start hm)
+    have hok2 : e.start + L ≤ e.buf.size := hok.2
+    subst he
+    exact ⟨hok2, k⟩
+  have hsc : e.fl.scan = fl.scan := by subst he; rfl
+  constructor
+  · intro L hL
+    obtain ⟨s0, k1, k2, k3, k4⟩ := g1 L hL
+    obtain ⟨c1, c2⟩ := conv L s0 k2 k4
+    exact ⟨s0, k1, c1, fun hh => k3 (by rw [hsc]; exact hh), c2⟩
+  · intro hm0
+    obtain ⟨s0, k1, k2, k3, k4⟩ := g2 hm0
+    obtain ⟨c1, c2⟩ := conv _ s0 k2 k4
+    exact ⟨s0, k1, c1, fun hh => k3 (by rw [hsc]; exact hh), c2⟩
+
+/-- BACKWARD code (EMIT_BACKWARDS, run with RE_FLAGS_BACKWARDS), one- or two-byte characters: every reported length `L` is
+    the length of a match of the expression that ENDS at the start position -/
+theorem vm_sound_bwd (r : Re) (hwf : WF r) (hsz : (emit true r 0).1.length < 32000) (buf : Bytes) (start : Nat) (hst : start ≤ buf.size)
+    (fl : VmFlags) (hb : fl.backwards = true) (hsc : fl.scan = false) (fuel : Nat) (m : Int) (c : List Nat)
+    (h : exec { code := (emitCode true r).toArray, entry := 0, buf := buf, start := start, fl := fl, syncFuel := fuel } = .done m c) :
+    (∀ L, L ∈ c → L ≤ start ∧ Re.Matches (specFlagsG fl) buf r (start - L) start) ∧
+    (0 ≤ m → m.toNat ≤ start ∧ Re.Matches (specFlagsG fl) buf r (start - m.toNat) start) := by
+  obtain ⟨e, he⟩ : ∃ e : Env, e = { code := (emitCode true r).toArray, entry := 0, buf := buf, start := start, fl := fl, syncFuel := fuel } := ⟨_, rfl⟩
+  rw [← he] at h
+  have hrun : RunOK e := by subst he; exact ⟨hst, fun hh => by rw [hsc] at hh; simp at hh⟩
+  have hb' : e.fl.backwards = true := by subst he; exact hb
+  have hcode : e.code = ((emit false (rev r) 0).1 ++ [0xAD]).toArray := by subst he; simp only [emitCode, emit_rev]
+  rw [emit_rev] at hsz
+  obtain ⟨g1, g2⟩ := exec_irm e (bwdDir e hb' hrun) (rev r) (rev_wf hwf) hsz hcode (by subst he; rfl) m c h
+  have hsc' : e.fl.scan = false := by subst he; exact hsc
+  have conv : ∀ L s0, s0 = 0 → (bwdDir e hb' hrun).ok L → IrM (bwdDir e hb' hrun).L (lower (rev r)) s0 L →
+      L ≤ start ∧ Re.Matches (specFlagsG fl) buf r (start - L) start := by
+    intro L s0 h0 hok hm
+    subst h0
+    have k := lowerB_sem hwf _ _ (irm_bwdG (specFlagsG e.fl) e.buf e.start hm)
+    have hok2 : L ≤ e.start := hok.2
+    subst he
+    exact ⟨hok2, by simpa using k⟩
+  constructor
+  · intro L hL
+    obtain ⟨s0, _, k2, k3, k4⟩ := g1 L hL
+    exact conv L s0 (k3 hsc') k2 k4
+  · intro hm0
+    obtain ⟨s0, _, k2, k3, k4⟩ := g2 hm0
+    exact conv _ s0 (k3 hsc') k2 k4
+
+/-- the ASTs `hex_grammar.y` builds for (a piece of) a hex string: bytes, `??`, nibble masks, `~` negations, jumps
+    `[n]` / `[n-m]` (lazy RE_NODE_RANGE_ANY, m below 65536 — every jump that is not split off as a chain link is at most
+    YR_STRING_CHAINING_THRESHOLD = 200), concatenation, alternatives nested to any depth -/
+inductive HexAst : Re → Prop
+  | byte (b : UInt8) : HexAst (.lit b)
+  | wild : HexAst .any
+  | mask (v m : UInt8) : HexAst (.masked v m)
+  | notByte (b : UInt8) : HexAst (.notLit b)
+  | notMask (v m : UInt8) : HexAst (.maskedNot v m)
+  | jump (lo hi : Nat) : lo ≤ hi → hi < 65536 → HexAst (.rangeAny lo hi false)
+  | seq {a b} : HexAst a → HexAst b → HexAst (.cat a b)
+  | alt {a b} : HexAst a → HexAst b → HexAst (.alt a b)
+
+theorem HexAst.wf {r : Re} (h : HexAst r) : WF r := by
+  induction h with
+  | byte b => exact .lit b
+  | wild => exact .any
+  | mask v m => exact .masked v m
+  | notByte b => exact .notLit b
+  | notMask v m => exact .maskedNot v m
+  | jump lo hi h1 h2 => exact .rangeAny lo hi false h1 h2
+  | seq _ _ ih1 ih2 => exact .cat ih1 ih2
+  | alt _ _ ih1 ih2 => exact .alt ih1 ih2
 
 end YaraModel.ReEmit
